@@ -1,6 +1,7 @@
-(* Proofs about the event-level entity model (Abs/Entities.v): property C01 (convergence, with the
-   exact classes of traces for which the real protocol does NOT converge) and the traffic bound
-   used by C09. *)
+(* Proofs about the event-level entity model (Abs/Entities.v) AFTER the S18 repair (per-session
+   tombstones, despawned_locally): uniqueness, property C01 (convergence outside the one remaining
+   defect class S11, with refutation witnesses for S11; the former S18 witnesses now end agreeing),
+   joiners, and the traffic bound used by C09. *)
 From Coq Require Import NArith List Bool Lia.
 From stdpp Require Import gmap list.
 From BS Require Import Abs.Entities.
@@ -30,8 +31,7 @@ Example ex_trace_runs :
 Proof. vm_compute. reflexivity. Qed.
 
 Example ex_trace_is_clean :
-  (known_S11 ex_trace, known_S18 ex_trace, known_S18_window ex_trace,
-   spec_alive ex_trace, dropped_uuids ex_trace) = (false, false, false, [11; 13], []).
+  (known_S11 ex_trace, spec_alive ex_trace, dropped_uuids ex_trace) = (false, [11; 13], []).
 Proof. vm_compute. reflexivity. Qed.
 
 (* the late joiner really receives uuid 12 twice *)
@@ -193,6 +193,28 @@ Section prims.
   Lemma get_ents_bcast s cs m p : get_ents (bcast s cs m) p = get_ents s p.
   Proof. unfold get_ents. by rewrite (proj1 (bcast_fields s cs m)). Qed.
 
+  Lemma get_tomb_bcast s cs m p : get_tomb (bcast s cs m) p = get_tomb s p.
+  Proof. induction cs as [|c cs IH]; simpl; [done|]. exact IH. Qed.
+
+  Lemma get_tomb_add_tomb s p u p' :
+    get_tomb (add_tomb s p u) p' =
+      if decide (p' = p /\ p <> 0) then u :: get_tomb s p else get_tomb s p'.
+  Proof.
+    unfold get_tomb at 1. simpl. destruct (decide (p = 0)) as [->|Hp].
+    - rewrite decide_False; [done|]. tauto.
+    - destruct (decide (p' = p)) as [->|Hne].
+      + rewrite lookup_insert. by rewrite decide_True.
+      + rewrite lookup_insert_ne by done. rewrite decide_False; [done|]. tauto.
+  Qed.
+
+  Lemma get_tomb_clear_tomb s c p' :
+    get_tomb (clear_tomb s c) p' = if decide (p' = c) then [] else get_tomb s p'.
+  Proof.
+    unfold get_tomb at 1. simpl. destruct (decide (p' = c)) as [->|Hne].
+    - by rewrite lookup_insert.
+    - by rewrite lookup_insert_ne.
+  Qed.
+
   Lemma get_link_bcast s cs m a b :
     NoDup cs ->
     get_link (bcast s cs m) a b =
@@ -247,13 +269,18 @@ Proof.
   - done.
 Qed.
 
-(* what a client does to its own list *)
-Definition cl_apply (m : emsg) (l : list uuid) : list uuid :=
+Lemma get_tomb_announce s p m p' : get_tomb (announce s p m) p' = get_tomb s p'.
+Proof. unfold announce. destruct (decide (p = 0)); [apply get_tomb_bcast|done]. Qed.
+
+(* what a client with tombstones T does to its own list *)
+Definition cl_apply (T : list uuid) (m : emsg) (l : list uuid) : list uuid :=
   match m with
-  | ESpawn u => if bool_decide (u ∈ l) then l else u :: l
+  | ESpawn u => if bool_decide (u ∈ T) then l else if bool_decide (u ∈ l) then l else u :: l
   | EDelete u => remove1 u l
   | _ => l
   end.
+
+Definition tomb_same (s s' : astate) : Prop := forall p, get_tomb s' p = get_tomb s p.
 
 Definition same_tables (s s' : astate) : Prop :=
   conn s' = conn s /\ synced s' = synced s /\ used s' = used s.
@@ -282,22 +309,23 @@ Inductive astep (s s' : astate) : event -> Prop :=
 | AS_spawn p u :
     p = 0 \/ p ∈ conn s -> u ∉ used s ->
     ents_upd s s' p (u :: get_ents s p) -> op_links s s' p (ESpawn u) ->
-    conn s' = conn s -> synced s' = synced s -> used s' = u :: used s ->
+    conn s' = conn s -> synced s' = synced s -> used s' = u :: used s -> tomb_same s s' ->
     astep s s' (EvSpawn p u)
 | AS_despawn p u :
     p = 0 \/ p ∈ conn s -> u ∈ get_ents s p ->
     ents_upd s s' p (remove1 u (get_ents s p)) -> op_links s s' p (EDelete u) ->
     same_tables s s' ->
+    (forall p', get_tomb s' p' = if decide (p' = p /\ p <> 0) then u :: get_tomb s p else get_tomb s p') ->
     astep s s' (EvDespawn p u)
 | AS_host_spawn c u q :
     c <> 0 -> get_link s c 0 = ESpawn u :: q ->
     ents_upd s s' 0 (u :: get_ents s 0) -> relay_links s s' c q (ESpawn u) ->
-    same_tables s s' ->
+    same_tables s s' -> tomb_same s s' ->
     astep s s' (EvDeliver c 0)
 | AS_host_delete c u q :
     c <> 0 -> get_link s c 0 = EDelete u :: q ->
     ents_upd s s' 0 (remove1 u (get_ents s 0)) -> relay_links s s' c q (EDelete u) ->
-    same_tables s s' ->
+    same_tables s s' -> tomb_same s s' ->
     astep s s' (EvDeliver c 0)
 | AS_host_req c q :
     c <> 0 -> get_link s c 0 = EReqInit :: q ->
@@ -307,17 +335,17 @@ Inductive astep (s s' : astate) : event -> Prop :=
        else if decide ((a, b) = (0, c))
             then get_link s 0 c ++ (ESpawn <$> get_ents s 0) ++ [EFinInit]
             else get_link s a b) ->
-    conn s' = conn s -> synced s' = c :: synced s -> used s' = used s ->
+    conn s' = conn s -> synced s' = c :: synced s -> used s' = used s -> tomb_same s s' ->
     astep s s' (EvDeliver c 0)
 | AS_host_fin c q :
     c <> 0 -> get_link s c 0 = EFinInit :: q ->
     (forall p, get_ents s' p = get_ents s p) -> pop_links s s' c 0 q ->
-    same_tables s s' ->
+    same_tables s s' -> tomb_same s s' ->
     astep s s' (EvDeliver c 0)
 | AS_client c m q :
     c <> 0 -> get_link s 0 c = m :: q ->
-    ents_upd s s' c (cl_apply m (get_ents s c)) -> pop_links s s' 0 c q ->
-    same_tables s s' ->
+    ents_upd s s' c (cl_apply (get_tomb s c) m (get_ents s c)) -> pop_links s s' 0 c q ->
+    same_tables s s' -> tomb_same s s' ->
     astep s s' (EvDeliver 0 c)
 | AS_connect c :
     c <> 0 -> c ∉ conn s ->
@@ -325,6 +353,7 @@ Inductive astep (s s' : astate) : event -> Prop :=
     (forall a b, get_link s' a b =
        if decide ((a, b) = (c, 0)) then get_link s c 0 ++ [EReqInit] else get_link s a b) ->
     conn s' = c :: conn s -> synced s' = synced s -> used s' = used s ->
+    (forall p', get_tomb s' p' = if decide (p' = c) then [] else get_tomb s p') ->
     astep s s' (EvConnect c)
 | AS_leave c :
     c ∈ conn s ->
@@ -332,7 +361,7 @@ Inductive astep (s s' : astate) : event -> Prop :=
     (forall a b, get_link s' a b =
        if decide ((a, b) = (0, c) \/ (a, b) = (c, 0)) then [] else get_link s a b) ->
     conn s' = filter (fun x => x <> c) (conn s) ->
-    synced s' = filter (fun x => x <> c) (synced s) -> used s' = used s ->
+    synced s' = filter (fun x => x <> c) (synced s) -> used s' = used s -> tomb_same s s' ->
     astep s s' (EvLeave c).
 
 Lemma step_astep s e s' : NoDup (conn s) -> step s e = Some s' -> astep s s' e.
@@ -350,17 +379,20 @@ Proof.
               if decide (p' = p) then u :: get_ents s p else get_ents s p').
       rewrite get_ents_set_ents. repeat case_decide; simplify_eq; done.
     + intros a b. rewrite get_link_announce by done. done.
+    + intros p'. rewrite get_tomb_announce. done.
   - destruct (peer_on s p) eqn:Hon; [|done].
     destruct (bool_decide (u ∈ get_ents s p)) eqn:Hin; [|done].
     simpl in Hstep. injection Hstep as <-.
     apply peer_on_spec in Hon. apply bool_decide_eq_true in Hin.
-    set (s1 := set_ents s p (remove1 u (get_ents s p))).
+    set (s0 := set_ents s p (remove1 u (get_ents s p))).
+    set (s1 := add_tomb s0 p u).
     destruct (announce_fields s1 p (EDelete u)) as (He & Hc & Hs & Hu).
     apply AS_despawn; try done.
     + intros p'. unfold get_ents at 1. rewrite He.
-      change (get_ents s1 p' = if decide (p' = p) then remove1 u (get_ents s p) else get_ents s p').
-      unfold s1. rewrite get_ents_set_ents. repeat case_decide; simplify_eq; done.
+      change (get_ents s0 p' = if decide (p' = p) then remove1 u (get_ents s p) else get_ents s p').
+      unfold s0. rewrite get_ents_set_ents. repeat case_decide; simplify_eq; done.
     + intros a b. rewrite get_link_announce by done. done.
+    + intros p'. rewrite get_tomb_announce. unfold s1. rewrite get_tomb_add_tomb. done.
   - destruct (get_link s a b) as [|m q] eqn:Hl; [done|].
     destruct (decide (b = 0)) as [->|Hb].
     + destruct (decide (a = 0)) as [->|Ha]; [done|]. injection Hstep as <-.
@@ -381,6 +413,7 @@ Proof.
               ** apply others_spec in Hin. rewrite decide_True by done. done.
               ** rewrite decide_False; [done|]. intros (-> & ? & ?). apply Hn. split; [done|].
                  apply others_spec. done.
+        -- intros p'. rewrite get_tomb_bcast. done.
       * destruct (bcast_fields (set_ents s1 0 (remove1 u (get_ents s1 0))) (others s1 a) (EDelete u))
           as (He & Hc & Hs & Hu & _).
         eapply AS_host_delete; try done.
@@ -393,6 +426,7 @@ Proof.
               ** apply others_spec in Hin. rewrite decide_True by done. done.
               ** rewrite decide_False; [done|]. intros (-> & ? & ?). apply Hn. split; [done|].
                  apply others_spec. done.
+        -- intros p'. rewrite get_tomb_bcast. done.
       * eapply AS_host_req; try done.
         intros a' b'.
         change (get_link (send s1 0 a ((ESpawn <$> get_ents s1 0) ++ [EFinInit])) a' b' = 
@@ -411,26 +445,39 @@ Proof.
       assert (Hl1 : forall a' b', get_link s1 a' b' =
                 if decide ((a', b') = (0, b)) then q else get_link s a' b').
       { intros a' b'. unfold s1. rewrite get_link_set_link. repeat case_decide; simplify_eq; done. }
-      eapply AS_client; try done.
-      * intros p'. destruct m as [u|u| |]; simpl.
-        -- change (get_ents s1 b) with (get_ents s b).
-           destruct (bool_decide (u ∈ get_ents s b)).
-           ++ change (get_ents s1 p') with (get_ents s p'). repeat case_decide; simplify_eq; done.
-           ++ rewrite get_ents_set_ents. repeat case_decide; simplify_eq; done.
-        -- rewrite get_ents_set_ents. change (get_ents s1 b) with (get_ents s b).
-           repeat case_decide; simplify_eq; done.
-        -- change (get_ents s1 p') with (get_ents s p'). repeat case_decide; simplify_eq; done.
-        -- change (get_ents s1 p') with (get_ents s p'). repeat case_decide; simplify_eq; done.
-      * intros a' b'. destruct m as [u|u| |]; simpl; try apply Hl1. destruct (bool_decide (u ∈ get_ents s1 b)); apply Hl1.
-      * destruct m as [u|u| |]; simpl; try done. destruct (bool_decide (u ∈ get_ents s1 b)); done.
+      assert (HE1 : forall p', get_ents s1 p' = get_ents s p') by done.
+      assert (HT1 : forall p', get_tomb s1 p' = get_tomb s p') by done.
+      assert (Hid : forall p', get_ents s p' = if decide (p' = b) then get_ents s b else get_ents s p').
+      { intros p'. case_decide; simplify_eq; done. }
+      eapply (AS_client s _ b m q); try done.
+      * intros p'. destruct m as [u|u| |]; simpl; rewrite ?HT1, ?HE1.
+        -- destruct (bool_decide (u ∈ get_tomb s b)); [rewrite HE1; apply Hid|].
+           destruct (bool_decide (u ∈ get_ents s b)); [rewrite HE1; apply Hid|].
+           rewrite get_ents_set_ents, HE1. repeat case_decide; simplify_eq; done.
+        -- rewrite get_ents_set_ents, HE1. repeat case_decide; simplify_eq; done.
+        -- apply Hid.
+        -- apply Hid.
+      * intros a' b'. destruct m as [u|u| |]; simpl; try apply Hl1.
+        destruct (bool_decide (u ∈ get_tomb s1 b)); [apply Hl1|].
+        destruct (bool_decide (u ∈ get_ents s1 b)); apply Hl1.
+      * destruct m as [u|u| |]; simpl; try done.
+        destruct (bool_decide (u ∈ get_tomb s1 b)); [done|].
+        destruct (bool_decide (u ∈ get_ents s1 b)); done.
+      * destruct m as [u|u| |]; simpl; try done.
+        destruct (bool_decide (u ∈ get_tomb s1 b)); [done|].
+        destruct (bool_decide (u ∈ get_ents s1 b)); done.
   - destruct (bool_decide (c <> 0)) eqn:Hc0; [|done].
     destruct (bool_decide (c ∉ conn s)) eqn:Hcc; [|done].
     simpl in Hstep. injection Hstep as <-.
     apply bool_decide_eq_true in Hc0, Hcc.
     apply AS_connect; try done.
-    intros a b. rewrite get_link_send.
-    change (get_link (set_conn s (c :: conn s) (synced s))) with (get_link s).
-    repeat case_decide; simplify_eq; done.
+    + intros a b. rewrite get_link_send.
+      change (get_link (clear_tomb (set_conn s (c :: conn s) (synced s)) c)) with (get_link s).
+      repeat case_decide; simplify_eq; done.
+    + intros p'.
+      change (get_tomb (clear_tomb (set_conn s (c :: conn s) (synced s)) c) p' =
+              if decide (p' = c) then [] else get_tomb s p').
+      rewrite get_tomb_clear_tomb. done.
   - destruct (bool_decide (c ∈ conn s)) eqn:Hcc; [|done].
     injection Hstep as <-. apply bool_decide_eq_true in Hcc.
     apply AS_leave; try done.
@@ -470,19 +517,35 @@ Record sinv (s : astate) : Prop := {
   s_pa : forall o u, ESpawn u ∈ get_link s o 0 -> pa s o u;
 }.
 
+Ltac step_cases_t Hinv Hstep :=
+  let A := fresh "A" in
+  pose proof (step_astep _ _ _ (s_nd_conn _ Hinv) Hstep) as A;
+  destruct A as
+   [p u Hon Hfresh HE HL Hc Hs Hu HT
+   |p u Hon Hin HE HL (Hc & Hs & Hu) HT
+   |c u q Hc0 Hhd HE HL (Hc & Hs & Hu) HT
+   |c u q Hc0 Hhd HE HL (Hc & Hs & Hu) HT
+   |c q Hc0 Hhd HE HL Hc Hs Hu HT
+   |c q Hc0 Hhd HE HL (Hc & Hs & Hu) HT
+   |c m q Hc0 Hhd HE HL (Hc & Hs & Hu) HT
+   |c Hc0 Hnc HE HL Hc Hs Hu HT
+   |c Hcc HE HL Hc Hs Hu HT].
+
+(* the same, forgetting what the step does to the tombstones *)
 Ltac step_cases Hinv Hstep :=
   let A := fresh "A" in
   pose proof (step_astep _ _ _ (s_nd_conn _ Hinv) Hstep) as A;
   destruct A as
-   [p u Hon Hfresh HE HL Hc Hs Hu
-   |p u Hon Hin HE HL (Hc & Hs & Hu)
-   |c u q Hc0 Hhd HE HL (Hc & Hs & Hu)
-   |c u q Hc0 Hhd HE HL (Hc & Hs & Hu)
-   |c q Hc0 Hhd HE HL Hc Hs Hu
-   |c q Hc0 Hhd HE HL (Hc & Hs & Hu)
-   |c m q Hc0 Hhd HE HL (Hc & Hs & Hu)
-   |c Hc0 Hnc HE HL Hc Hs Hu
-   |c Hcc HE HL Hc Hs Hu].
+   [p u Hon Hfresh HE HL Hc Hs Hu _
+   |p u Hon Hin HE HL (Hc & Hs & Hu) _
+   |c u q Hc0 Hhd HE HL (Hc & Hs & Hu) _
+   |c u q Hc0 Hhd HE HL (Hc & Hs & Hu) _
+   |c q Hc0 Hhd HE HL Hc Hs Hu _
+   |c q Hc0 Hhd HE HL (Hc & Hs & Hu) _
+   |c m q Hc0 Hhd HE HL (Hc & Hs & Hu) _
+   |c Hc0 Hnc HE HL Hc Hs Hu _
+   |c Hcc HE HL Hc Hs Hu _].
+
 
 Lemma link_nonempty_conn s c : sinv s -> c <> 0 -> get_link s c 0 <> [] -> c ∈ conn s.
 Proof.
@@ -577,6 +640,31 @@ Proof.
       * intros u -> Hu. apply (Hm u eq_refl). apply mentions_cons. by right.
 Qed.
 
+Lemma cl_apply_NoDup T m l : NoDup l -> NoDup (cl_apply T m l).
+Proof.
+  intros Hnd. destruct m as [u|u| |]; simpl; try done.
+  - destruct (bool_decide (u ∈ T)); [done|]. case_bool_decide; [done|]. by apply NoDup_cons.
+  - by apply remove1_NoDup.
+Qed.
+
+Lemma elem_of_snoc {A} (x y : A) (l : list A) : x ∈ l ++ [y] <-> x ∈ l \/ x = y.
+Proof. set_solver. Qed.
+
+Lemma cl_apply_elem_inv T w m l : w ∈ cl_apply T m l -> w ∈ l \/ m = ESpawn w.
+Proof.
+  destruct m as [u|u| |]; simpl; auto.
+  - destruct (bool_decide (u ∈ T)); [auto|].
+    case_bool_decide; [auto|]. intros [->|?]%elem_of_cons; auto.
+  - intros ?%remove1_subseteq. auto.
+Qed.
+
+Lemma cl_apply_elem_keep T w m l : w ∈ l -> m <> EDelete w -> w ∈ cl_apply T m l.
+Proof.
+  intros Hin Hm. destruct m as [u|u| |]; simpl; auto.
+  - destruct (bool_decide (u ∈ T)); [done|]. case_bool_decide; set_solver.
+  - apply remove1_other; [done|]. intros ->. done.
+Qed.
+
 Lemma sinv_used s e s' :
   sinv s -> step s e = Some s' ->
   (forall p u, u ∈ get_ents s' p -> u ∈ used s') /\
@@ -617,10 +705,8 @@ Proof.
       apply (Hul c 0). rewrite Hhd. apply mentions_cons. by right.
   - split.
     + intros p' v. rewrite HE. case_decide; [|eauto]. subst p'.
-      destruct m as [w|w| |]; simpl; eauto.
-      * case_bool_decide; [eauto|]. intros [->|?]%elem_of_cons; [|eauto].
-        apply (Hul 0 c). rewrite Hhd. apply mentions_cons. left. by apply mentions_spawn.
-      * intros ?%remove1_subseteq. eauto.
+      intros [?| ->]%cl_apply_elem_inv; [eauto|].
+      apply (Hul 0 c). rewrite Hhd. apply mentions_cons. left. by apply mentions_spawn.
     + intros a b v. rewrite HL. repeat case_decide; eauto. intros. simplify_eq.
       apply (Hul 0 c). rewrite Hhd. apply mentions_cons. by right.
   - split.
@@ -689,13 +775,6 @@ Proof.
   - repeat case_decide; simplify_eq; try done. simpl. set_solver.
 Qed.
 
-Lemma cl_apply_NoDup m l : NoDup l -> NoDup (cl_apply m l).
-Proof.
-  intros Hnd. destruct m as [u|u| |]; simpl; try done.
-  - case_bool_decide; [done|]. by apply NoDup_cons.
-  - by apply remove1_NoDup.
-Qed.
-
 Lemma sinv_nd_ents s e s' :
   sinv s -> step s e = Some s' -> forall p, NoDup (get_ents s' p).
 Proof.
@@ -709,23 +788,6 @@ Proof.
     destruct (s_pa _ Hinv _ _ Hsp) as (? & _). done.
   - case_decide; [|done]. by apply remove1_NoDup.
   - case_decide; [|done]. by apply cl_apply_NoDup.
-Qed.
-
-Lemma elem_of_snoc {A} (x y : A) (l : list A) : x ∈ l ++ [y] <-> x ∈ l \/ x = y.
-Proof. set_solver. Qed.
-
-Lemma cl_apply_elem_inv w m l : w ∈ cl_apply m l -> w ∈ l \/ m = ESpawn w.
-Proof.
-  destruct m as [u|u| |]; simpl; auto.
-  - case_bool_decide; [auto|]. intros [->|?]%elem_of_cons; auto.
-  - intros ?%remove1_subseteq. auto.
-Qed.
-
-Lemma cl_apply_elem_keep w m l : w ∈ l -> m <> EDelete w -> w ∈ cl_apply m l.
-Proof.
-  intros Hin Hm. destruct m as [u|u| |]; simpl; auto.
-  - case_bool_decide; set_solver.
-  - apply remove1_other; [done|]. intros ->. done.
 Qed.
 
 Lemma sinv_pa s e s' :
@@ -1040,18 +1102,28 @@ Definition witness_S11_lost_spawn : list event :=
   [EvConnect 1; EvDeliver 1 0; EvDeliver 0 1; EvSpawn 1 10;
    EvLeave 1; EvConnect 1; EvDeliver 1 0; EvDeliver 0 1].
 
-(* S18: 1 gets 10 live while its InitialSync request is still travelling; the snapshot then
-   contains 10 again; 1 despawns its replica before the snapshot arrives: the duplicate ESpawn
-   re-creates 10 on client 1 only (the host deletes 10 and does not echo the EDelete to 1). *)
+(* Former S18 witness (the model before the despawned_locally repair ended with host [] / client 1
+   [10]): 1 gets 10 live while its InitialSync request is still travelling; the snapshot then
+   contains 10 again; 1 despawns its replica before the snapshot arrives.  The duplicate ESpawn is now
+   ignored because of the tombstone. *)
 Definition witness_S18 : list event :=
   [EvConnect 1; EvSpawn 0 10; EvDeliver 0 1; EvDeliver 1 0; EvDespawn 1 10;
    EvDeliver 0 1; EvDeliver 0 1; EvDeliver 1 0].
 
-(* S18, second face: the despawn happens BEFORE the host builds the snapshot (which will contain
-   10 because the EDelete is behind the EReqInit on the same link). *)
+(* Former S18 witness, second face: the despawn happens BEFORE the host builds the snapshot (which
+   will contain 10 because the EDelete is behind the EReqInit on the same link). *)
 Definition witness_S18_pending : list event :=
   [EvConnect 1; EvSpawn 0 10; EvDeliver 0 1; EvDespawn 1 10; EvDeliver 1 0; EvDeliver 1 0;
    EvDeliver 0 1; EvDeliver 0 1].
+
+(* A tombstone must not outlive its session: 1 despawns its replica of 10 and leaves before the host
+   has handled the EDelete (dropped with the link); the host still holds 10.  1 re-connects (holding
+   nothing, so this is not S11): the tombstone is cleared by the EvConnect and the snapshot re-creates
+   10 on client 1.  (With tombstones kept across the re-connection this history ended quiescent with
+   host [10] / client 1 [].) *)
+Definition witness_lost_delete_rejoin : list event :=
+  [EvConnect 1; EvDeliver 1 0; EvDeliver 0 1; EvSpawn 0 10; EvDeliver 0 1;
+   EvDespawn 1 10; EvLeave 1; EvConnect 1; EvDeliver 1 0; EvDeliver 0 1; EvDeliver 0 1].
 
 Theorem C01_refuted_S11 : exists tr s, run init tr = Some s /\ quiescent s /\ ~ agree s.
 Proof. apply (refute_by_run witness_S11). vm_compute. reflexivity. Qed.
@@ -1059,32 +1131,38 @@ Proof. apply (refute_by_run witness_S11). vm_compute. reflexivity. Qed.
 Theorem C01_refuted_S11_lost_spawn : exists tr s, run init tr = Some s /\ quiescent s /\ ~ agree s.
 Proof. apply (refute_by_run witness_S11_lost_spawn). vm_compute. reflexivity. Qed.
 
-Theorem C01_refuted_S18 : exists tr s, run init tr = Some s /\ quiescent s /\ ~ agree s.
-Proof. apply (refute_by_run witness_S18). vm_compute. reflexivity. Qed.
-
-Theorem C01_refuted_S18_pending : exists tr s, run init tr = Some s /\ quiescent s /\ ~ agree s.
-Proof. apply (refute_by_run witness_S18_pending). vm_compute. reflexivity. Qed.
-
 Corollary C01_unrestricted_is_false : ~ C01_unrestricted_statement.
 Proof.
-  intros Hall. destruct C01_refuted_S18 as (tr & s & Hrun & Hq & Hn). apply Hn. by eapply Hall.
+  intros Hall. destruct C01_refuted_S11 as (tr & s & Hrun & Hq & Hn). apply Hn. by eapply Hall.
 Qed.
 
-(* each witness lies in exactly its own class; what the stale client holds *)
+Definition end_view (tr : list event) :=
+  (fun s => (get_ents s 0, get_ents s 1, get_tomb s 1, quiescentb s, agreeb s)) <$> run init tr.
+
+(* the two S18 histories now END AGREEING *)
+Example S18_now_agrees : end_view witness_S18 = Some ([], [], [10], true, true).
+Proof. vm_compute. reflexivity. Qed.
+
+Example S18_pending_now_agrees : end_view witness_S18_pending = Some ([], [], [10], true, true).
+Proof. vm_compute. reflexivity. Qed.
+
+Example lost_delete_rejoin_agrees :
+  (end_view witness_lost_delete_rejoin, known_S11 witness_lost_delete_rejoin,
+   dropped_uuids witness_lost_delete_rejoin, spec_alive witness_lost_delete_rejoin)
+  = (Some ([10], [10], [], true, true), false, [10], []).
+Proof. vm_compute. reflexivity. Qed.
+
+(* the S11 witnesses lie in their class, the others do not; what the stale client holds *)
 Example witnesses_classified :
-  (known_S11 witness_S11, known_S18 witness_S11,
-   known_S11 witness_S11_lost_spawn, known_S18 witness_S11_lost_spawn,
-   known_S11 witness_S18, known_S18 witness_S18, known_S18_window witness_S18,
-   known_S11 witness_S18_pending, known_S18 witness_S18_pending)
-  = (true, false, true, false, false, true, true, false, true).
+  (known_S11 witness_S11, known_S11 witness_S11_lost_spawn,
+   known_S11 witness_S18, known_S11 witness_S18_pending, known_S11 witness_lost_delete_rejoin)
+  = (true, true, false, false, false).
 Proof. vm_compute. reflexivity. Qed.
 
 Example witnesses_final_views :
   ((fun s => (get_ents s 0, get_ents s 1)) <$> run init witness_S11,
-   (fun s => (get_ents s 0, get_ents s 1)) <$> run init witness_S11_lost_spawn,
-   (fun s => (get_ents s 0, get_ents s 1)) <$> run init witness_S18,
-   (fun s => (get_ents s 0, get_ents s 1)) <$> run init witness_S18_pending)
-  = (Some ([], [10]), Some ([], [10]), Some ([], [10]), Some ([], [10])).
+   (fun s => (get_ents s 0, get_ents s 1)) <$> run init witness_S11_lost_spawn)
+  = (Some ([], [10]), Some ([], [10])).
 Proof. vm_compute. reflexivity. Qed.
 
 (* Suspected but NOT defects.  (a) Two peers despawn the same uuid concurrently: idempotent. *)
@@ -1108,184 +1186,335 @@ Proof.
 Qed.
 
 Print Assumptions C01_refuted_S11.
-Print Assumptions C01_refuted_S18.
-Print Assumptions C01_refuted_S18_pending.
+Print Assumptions C01_refuted_S11_lost_spawn.
+Print Assumptions C01_unrestricted_is_false.
 
 (* ================================================================================================
-   6. Convergence invariant (outside the known classes)
+   6. Tombstones (invariant of EVERY run) and the convergence invariant
    ================================================================================================ *)
 
-(* what client c will think of u once it has handled everything queued on (0,c) *)
+Lemma op_links_up s s' p m :
+  op_links s s' p m -> 0 ∉ conn s ->
+  forall c, get_link s' c 0 =
+    if decide (c = p /\ p <> 0) then get_link s c 0 ++ [m] else get_link s c 0.
+Proof.
+  intros HL H0 c. rewrite HL. destruct (decide (p = 0)) as [->|Hp].
+  - rewrite (decide_False (P := c = 0 /\ 0 <> 0)) by tauto.
+    rewrite decide_False; [done|]. intros [-> ?]. done.
+  - destruct (decide (c = p)) as [->|Hne].
+    + rewrite decide_True by done. by rewrite decide_True.
+    + rewrite decide_False by (intros [= ->]; done). rewrite decide_False by tauto. done.
+Qed.
+
+Lemma op_links_down s s' p m :
+  op_links s s' p m ->
+  forall c, c <> 0 -> get_link s' 0 c =
+    if decide (p = 0 /\ c ∈ conn s) then get_link s 0 c ++ [m] else get_link s 0 c.
+Proof.
+  intros HL c Hc. rewrite HL. destruct (decide (p = 0)) as [->|Hp].
+  - destruct (decide (0 = 0 /\ c ∈ conn s)) as [Hd|Hd]; done.
+  - rewrite decide_False by (intros [= ? ?]; done). rewrite decide_False by tauto. done.
+Qed.
+
+Lemma relay_links_up s s' c q m :
+  relay_links s s' c q m -> 0 ∉ conn s ->
+  forall c', get_link s' c' 0 = if decide (c' = c) then q else get_link s c' 0.
+Proof.
+  intros HL H0 c'. rewrite HL. destruct (decide (c' = c)) as [->|Hne].
+  - by rewrite decide_True.
+  - rewrite decide_False by (intros [= ->]; done). rewrite decide_False; [done|].
+    intros (-> & _ & ?). done.
+Qed.
+
+Lemma relay_links_down s s' c q m :
+  relay_links s s' c q m -> c <> 0 ->
+  forall c', c' <> 0 -> get_link s' 0 c' =
+    if decide (c' <> c /\ c' ∈ conn s) then get_link s 0 c' ++ [m] else get_link s 0 c'.
+Proof.
+  intros HL Hc c' Hc'. rewrite HL. rewrite decide_False by (intros [= ? ?]; simplify_eq).
+  destruct (decide (c' <> c /\ c' ∈ conn s)) as [[? ?]|Hd].
+  - by rewrite decide_True.
+  - rewrite decide_False; [done|]. intros (_ & ? & ?). apply Hd. done.
+Qed.
+
+Record tinv (s : astate) : Prop := {
+  t_used : forall c u, u ∈ get_tomb s c -> u ∈ used s;
+  (* a tombstoned uuid is not held (and, being ignored by the receiver, never will be) *)
+  t_ents : forall c u, u ∈ get_tomb s c -> u ∉ get_ents s c;
+  (* a client's EDelete in flight is backed by a tombstone *)
+  t_del : forall c u, EDelete u ∈ get_link s c 0 -> u ∈ get_tomb s c;
+  (* nobody but its creator has ever heard of a uuid that is still travelling to the host *)
+  t_pa : forall o u c, ESpawn u ∈ get_link s o 0 -> c <> o -> u ∉ get_tomb s c;
+}.
+
+Lemma cl_apply_tomb T w m l : w ∈ T -> w ∈ cl_apply T m l -> w ∈ l.
+Proof.
+  intros HT. destruct m as [u|u| |]; simpl; try done.
+  - destruct (bool_decide (u ∈ T)) eqn:Hu; [done|].
+    destruct (bool_decide (u ∈ l)); [done|]. intros [->|?]%elem_of_cons; [|done].
+    apply bool_decide_eq_false in Hu. done.
+  - apply remove1_subseteq.
+Qed.
+
+Lemma tinv_init : tinv init.
+Proof.
+  constructor.
+  - intros c u Hin. by apply elem_of_nil in Hin.
+  - intros c u Hin. by apply elem_of_nil in Hin.
+  - intros c u Hin. rewrite get_link_init in Hin. by apply elem_of_nil in Hin.
+  - intros o u c Hin. rewrite get_link_init in Hin. by apply elem_of_nil in Hin.
+Qed.
+
+Lemma tinv_step s e s' : sinv s -> tinv s -> step s e = Some s' -> tinv s'.
+Proof.
+  intros Hinv [T1 T2 T3 T4] Hstep. pose proof (s_host _ Hinv) as H0.
+  pose proof (s_nd_ents _ Hinv) as Hnd.
+  step_cases_t Hinv Hstep.
+  - (* spawn *)
+    pose proof (op_links_up _ _ _ _ HL H0) as HU.
+    assert (HUi : forall c m, m ∈ get_link s' c 0 -> m ∈ get_link s c 0 \/ m = ESpawn u).
+    { intros c m. rewrite HU. destruct (decide _); [|by intros; left].
+      intros [?| ->]%elem_of_snoc; [by left|by right]. }
+    assert (Hnt : forall c, u ∉ get_tomb s c).
+    { intros c Hin. apply Hfresh. by eapply T1. }
+    constructor.
+    + intros c w. rewrite HT, Hu. intros Hin. apply elem_of_list_further. by eapply T1.
+    + intros c w. rewrite HT, HE. intros Hin. destruct (decide (c = p)) as [->|Hne]; [|by apply T2].
+      intros [->|Hw]%elem_of_cons; [by apply (Hnt p)|]. by apply (T2 p w).
+    + intros c w Hin. rewrite HT. destruct (HUi _ _ Hin) as [Hold|[=]]. by apply T3.
+    + intros o w c Hin Hco. rewrite HT. destruct (HUi _ _ Hin) as [Hold|[= ->]]; [by eapply T4|apply Hnt].
+  - (* despawn *)
+    pose proof (op_links_up _ _ _ _ HL H0) as HU.
+    assert (HUi : forall c m, m ∈ get_link s' c 0 ->
+              m ∈ get_link s c 0 \/ (m = EDelete u /\ c = p /\ p <> 0)).
+    { intros c m. rewrite HU. destruct (decide _) as [[-> ?]|]; [|by intros; left].
+      intros [?| ->]%elem_of_snoc; [by left|by right]. }
+    assert (HTi : forall c w, w ∈ get_tomb s' c ->
+              w ∈ get_tomb s c \/ (w = u /\ c = p /\ p <> 0)).
+    { intros c w. rewrite HT. destruct (decide _) as [[-> ?]|]; [|by intros; left].
+      intros [->|?]%elem_of_cons; [by right|by left]. }
+    assert (HTm : forall c w, w ∈ get_tomb s c -> w ∈ get_tomb s' c).
+    { intros c w Hw. rewrite HT. destruct (decide _) as [[-> ?]|]; [|done].
+      by apply elem_of_list_further. }
+    constructor.
+    + intros c w [Hold|(-> & -> & _)]%HTi; rewrite Hu; [by eapply T1|]. by eapply s_used_e.
+    + intros c w Hw. rewrite HE. destruct (HTi _ _ Hw) as [Hold|(-> & -> & _)].
+      * destruct (decide (c = p)) as [->|Hne]; [|by apply T2].
+        intros ?%remove1_subseteq. by apply (T2 p w).
+      * rewrite decide_True by done. by apply remove1_not_in.
+    + intros c w [Hold|([= ->] & -> & Hp)]%HUi; [by apply HTm, T3|].
+      rewrite HT. rewrite decide_True by done. apply elem_of_list_here.
+    + intros o w c Hsp Hco. destruct (HUi _ _ Hsp) as [Hold|([=] & _)].
+      intros [Hw|(-> & -> & _)]%HTi; [by apply (T4 o w c)|].
+      destruct (s_pa _ Hinv _ _ Hold) as (_ & _ & P3 & _). destruct (P3 p Hco) as [Hn _]. done.
+  - (* host receives ESpawn u from c *)
+    pose proof (relay_links_up _ _ _ _ _ HL H0) as HU.
+    assert (HUi : forall c' m, m ∈ get_link s' c' 0 -> m ∈ get_link s c' 0).
+    { intros c' m. rewrite HU. destruct (decide (c' = c)) as [->|]; [|done].
+      rewrite Hhd. apply elem_of_list_further. }
+    assert (Hsp : ESpawn u ∈ get_link s c 0) by (rewrite Hhd; apply elem_of_list_here).
+    constructor.
+    + intros c' w. rewrite HT, Hu. apply T1.
+    + intros c' w. rewrite HT, HE. intros Hw. destruct (decide (c' = 0)) as [->|Hne]; [|by apply T2].
+      intros [->|Hin]%elem_of_cons; [|by apply (T2 0 w)]. by apply (T4 c u 0).
+    + intros c' w Hin%HUi. rewrite HT. by apply T3.
+    + intros o w c' Hin%HUi Hco. rewrite HT. by eapply T4.
+  - (* host receives EDelete u from c *)
+    pose proof (relay_links_up _ _ _ _ _ HL H0) as HU.
+    assert (HUi : forall c' m, m ∈ get_link s' c' 0 -> m ∈ get_link s c' 0).
+    { intros c' m. rewrite HU. destruct (decide (c' = c)) as [->|]; [|done].
+      rewrite Hhd. apply elem_of_list_further. }
+    constructor.
+    + intros c' w. rewrite HT, Hu. apply T1.
+    + intros c' w. rewrite HT, HE. intros Hw. destruct (decide (c' = 0)) as [->|Hne]; [|by apply T2].
+      intros ?%remove1_subseteq. by apply (T2 0 w).
+    + intros c' w Hin%HUi. rewrite HT. by apply T3.
+    + intros o w c' Hin%HUi Hco. rewrite HT. by eapply T4.
+  - (* host receives EReqInit from c *)
+    assert (HUi : forall c' m, m ∈ get_link s' c' 0 -> m ∈ get_link s c' 0).
+    { intros c' m. rewrite HL. destruct (decide (c' = c)) as [->|Hne].
+      - rewrite decide_True by done. rewrite Hhd. apply elem_of_list_further.
+      - rewrite decide_False by (intros [= ->]; done).
+        rewrite decide_False; [done|]. intros [= -> ?]. done. }
+    constructor.
+    + intros c' w. rewrite HT, Hu. apply T1.
+    + intros c' w. rewrite HT, HE. apply T2.
+    + intros c' w Hin%HUi. rewrite HT. by apply T3.
+    + intros o w c' Hin%HUi Hco. rewrite HT. by eapply T4.
+  - (* host receives EFinInit from c *)
+    assert (HUi : forall c' m, m ∈ get_link s' c' 0 -> m ∈ get_link s c' 0).
+    { intros c' m. rewrite HL. destruct (decide (c' = c)) as [->|Hne].
+      - rewrite decide_True by done. rewrite Hhd. apply elem_of_list_further.
+      - rewrite decide_False by (intros [= ->]; done). done. }
+    constructor.
+    + intros c' w. rewrite HT, Hu. apply T1.
+    + intros c' w. rewrite HT, HE. apply T2.
+    + intros c' w Hin%HUi. rewrite HT. by apply T3.
+    + intros o w c' Hin%HUi Hco. rewrite HT. by eapply T4.
+  - (* client c handles m *)
+    assert (HU : forall c', get_link s' c' 0 = get_link s c' 0).
+    { intros c'. rewrite HL. rewrite decide_False; [done|]. intros [= ? ?]. simplify_eq. }
+    constructor.
+    + intros c' w. rewrite HT, Hu. apply T1.
+    + intros c' w. rewrite HT, HE. intros Hw. destruct (decide (c' = c)) as [->|Hne]; [|by apply T2].
+      intros Hin%cl_apply_tomb; [|done]. by apply (T2 c w).
+    + intros c' w. rewrite HU, HT. apply T3.
+    + intros o w c'. rewrite HU, HT. apply T4.
+  - (* connect *)
+    assert (Huc : get_link s c 0 = []).
+    { destruct (get_link s c 0) eqn:Heq; [done|]. exfalso. apply Hnc.
+      apply link_nonempty_conn; [done|done|]. by rewrite Heq. }
+    assert (HUi : forall c' m, m ∈ get_link s' c' 0 -> m <> EReqInit -> m ∈ get_link s c' 0 /\ c' <> c).
+    { intros c' m. rewrite HL. destruct (decide (c' = c)) as [->|Hne].
+      - rewrite decide_True by done. rewrite Huc. simpl. intros ->%elem_of_list_singleton. done.
+      - rewrite decide_False by (intros [= ->]; done). intros Hin _. done. }
+    assert (HTi : forall c' w, w ∈ get_tomb s' c' -> w ∈ get_tomb s c').
+    { intros c' w. rewrite HT. destruct (decide (c' = c)); [by intros ?%elem_of_nil|done]. }
+    constructor.
+    + intros c' w Hw%HTi. rewrite Hu. by eapply T1.
+    + intros c' w Hw%HTi. rewrite HE. by apply T2.
+    + intros c' w Hin. destruct (HUi _ _ Hin) as [Hold Hne]; [done|].
+      rewrite HT. rewrite decide_False by done. by apply T3.
+    + intros o w c' Hin Hco Hw%HTi. destruct (HUi _ _ Hin) as [Hold _]; [done|]. by apply (T4 o w c').
+  - (* leave *)
+    assert (HUi : forall c' m, m ∈ get_link s' c' 0 -> m ∈ get_link s c' 0).
+    { intros c' m. rewrite HL. destruct (decide _); [by intros ?%elem_of_nil|done]. }
+    constructor.
+    + intros c' w. rewrite HT, Hu. apply T1.
+    + intros c' w. rewrite HT, HE. apply T2.
+    + intros c' w Hin%HUi. rewrite HT. by apply T3.
+    + intros o w c' Hin%HUi Hco. rewrite HT. by eapply T4.
+Qed.
+
+Lemma tinv_run s tr s' : sinv s -> tinv s -> run s tr = Some s' -> tinv s'.
+Proof.
+  revert s. induction tr as [|e tr IH]; intros s Hinv Ht; simpl.
+  - by intros [= <-].
+  - destruct (step s e) as [s1|] eqn:Hstep; [|done]. intros Hrun.
+    eapply IH; [| |done]; [by eapply sinv_step|by eapply tinv_step].
+Qed.
+
+Lemma tinv_reachable tr s : run init tr = Some s -> tinv s.
+Proof. apply tinv_run; [apply sinv_init|apply tinv_init]. Qed.
+
+(* ---- convergence invariant ---- *)
+
+Definition tb (s : astate) (c : peer) (u : uuid) : bool := bool_decide (u ∈ get_tomb s c).
+
+(* what client c will think of u once it has handled everything queued on (0,c): with a tombstone
+   for u it does not hold u and ignores every ESpawn u *)
 Definition cm (s : astate) (c : peer) (u : uuid) : bool :=
-  after_msgs u (bool_decide (u ∈ get_ents s c)) (get_link s 0 c).
+  negb (tb s c u) && after_msgs u (bool_decide (u ∈ get_ents s c)) (get_link s 0 c).
 
 Lemma cm_same s s' c u :
-  get_ents s' c = get_ents s c -> get_link s' 0 c = get_link s 0 c -> cm s' c u = cm s c u.
-Proof. unfold cm. by intros -> ->. Qed.
+  get_tomb s' c = get_tomb s c -> get_ents s' c = get_ents s c ->
+  get_link s' 0 c = get_link s 0 c -> cm s' c u = cm s c u.
+Proof. unfold cm, tb. by intros -> -> ->. Qed.
+
+Lemma cm_tomb s c u : u ∈ get_tomb s c -> cm s c u = false.
+Proof. intros Hin. unfold cm, tb. by rewrite (bool_decide_eq_true_2 _ Hin). Qed.
+
+Lemma cm_true_no_tomb s c u : cm s c u = true -> u ∉ get_tomb s c.
+Proof. intros Ht Hin. by rewrite (cm_tomb _ _ _ Hin) in Ht. Qed.
 
 Lemma cm_app s s' c u q :
-  get_ents s' c = get_ents s c -> get_link s' 0 c = get_link s 0 c ++ q ->
-  cm s' c u = after_msgs u (cm s c u) q.
-Proof. unfold cm. intros -> ->. apply after_msgs_app. Qed.
-
-Lemma cm_snoc s s' c u m :
-  get_ents s' c = get_ents s c -> get_link s' 0 c = get_link s 0 c ++ [m] ->
-  cm s' c u = after_msg u (cm s c u) m.
-Proof. intros He Hl. by rewrite (cm_app _ _ _ _ _ He Hl). Qed.
-
-Lemma cl_apply_member u m l :
-  NoDup l -> bool_decide (u ∈ cl_apply m l) = after_msg u (bool_decide (u ∈ l)) m.
+  get_tomb s' c = get_tomb s c -> get_ents s' c = get_ents s c ->
+  get_link s' 0 c = get_link s 0 c ++ q ->
+  cm s' c u = negb (tb s c u) && after_msgs u (cm s c u) q.
 Proof.
-  intros Hnd. destruct m as [v|v| |]; simpl; try done.
-  - case_decide as Hvu.
-    + subst v. apply bool_decide_eq_true_2. destruct (decide (u ∈ l)) as [Hin|Hin].
+  unfold cm, tb. intros -> -> ->. rewrite after_msgs_app.
+  destruct (bool_decide (u ∈ get_tomb s c)); done.
+Qed.
+
+Lemma cm_absorb s c u : negb (tb s c u) && cm s c u = cm s c u.
+Proof. unfold cm. by destruct (tb s c u). Qed.
+
+Lemma cm_snoc_same s s' c w m :
+  get_tomb s' c = get_tomb s c -> get_ents s' c = get_ents s c ->
+  get_link s' 0 c = get_link s 0 c ++ [m] -> ~ mentions w [m] -> cm s' c w = cm s c w.
+Proof.
+  intros HT He Hl Hm. rewrite (cm_app _ _ _ _ _ HT He Hl).
+  assert (Ha : after_msgs w (cm s c w) [m] = cm s c w).
+  { apply after_msgs_no_mention; intros Hin; apply Hm; [by left|by right]. }
+  rewrite Ha. apply cm_absorb.
+Qed.
+
+Lemma cm_snoc_spawn s s' c u :
+  get_tomb s' c = get_tomb s c -> get_ents s' c = get_ents s c ->
+  get_link s' 0 c = get_link s 0 c ++ [ESpawn u] -> cm s' c u = negb (tb s c u).
+Proof.
+  intros HT He Hl. rewrite (cm_app _ _ _ _ _ HT He Hl). unfold after_msgs. simpl.
+  rewrite decide_True by done. apply andb_true_r.
+Qed.
+
+Lemma cm_snoc_delete s s' c u :
+  get_tomb s' c = get_tomb s c -> get_ents s' c = get_ents s c ->
+  get_link s' 0 c = get_link s 0 c ++ [EDelete u] -> cm s' c u = false.
+Proof.
+  intros HT He Hl. rewrite (cm_app _ _ _ _ _ HT He Hl). unfold after_msgs. simpl.
+  rewrite decide_True by done. apply andb_false_r.
+Qed.
+
+Lemma cl_apply_member T u m l :
+  NoDup l -> u ∉ T ->
+  bool_decide (u ∈ cl_apply T m l) = after_msg u (bool_decide (u ∈ l)) m.
+Proof.
+  intros Hnd HT. destruct m as [v|v| |]; simpl; try done.
+  - destruct (decide (v = u)) as [->|Hvu].
+    + rewrite (bool_decide_eq_false_2 _ HT). apply bool_decide_eq_true_2.
+      destruct (decide (u ∈ l)) as [Hin|Hin].
       * by rewrite (bool_decide_eq_true_2 _ Hin).
-      * rewrite (bool_decide_eq_false_2 _ Hin). set_solver.
-    + destruct (decide (v ∈ l)) as [Hin|Hin].
+      * rewrite (bool_decide_eq_false_2 _ Hin). apply elem_of_list_here.
+    + destruct (bool_decide (v ∈ T)); [done|]. destruct (decide (v ∈ l)) as [Hin|Hin].
       * by rewrite (bool_decide_eq_true_2 _ Hin).
-      * rewrite (bool_decide_eq_false_2 _ Hin). apply bool_decide_ext. set_solver.
-  - case_decide as Hvu.
-    + subst v. apply bool_decide_eq_false_2. by apply remove1_not_in.
+      * rewrite (bool_decide_eq_false_2 _ Hin). apply bool_decide_ext. rewrite elem_of_cons.
+        split; [intros [?|?]; [congruence|done]|by right].
+  - destruct (decide (v = u)) as [->|Hvu].
+    + apply bool_decide_eq_false_2. by apply remove1_not_in.
     + apply bool_decide_ext. split; [apply remove1_subseteq|].
       intros Hin. apply remove1_other; [done|]. by intros ->.
 Qed.
 
 Lemma cm_pop s s' c u m q :
   NoDup (get_ents s c) -> get_link s 0 c = m :: q -> get_link s' 0 c = q ->
-  get_ents s' c = cl_apply m (get_ents s c) -> cm s' c u = cm s c u.
+  get_ents s' c = cl_apply (get_tomb s c) m (get_ents s c) -> get_tomb s' c = get_tomb s c ->
+  cm s' c u = cm s c u.
 Proof.
-  intros Hnd Hhd Hl He. unfold cm. rewrite Hl, He, Hhd, after_msgs_cons.
-  by rewrite cl_apply_member.
+  intros Hnd Hhd Hl He HT. unfold cm, tb. rewrite HT, Hl, He, Hhd, after_msgs_cons.
+  destruct (decide (u ∈ get_tomb s c)) as [Hin|Hin].
+  - by rewrite (bool_decide_eq_true_2 _ Hin).
+  - by rewrite cl_apply_member.
 Qed.
 
 Lemma cm_no_mention s c u :
-  ~ mentions u (get_link s 0 c) -> cm s c u = bool_decide (u ∈ get_ents s c).
-Proof. intros Hm. unfold cm. apply after_msgs_no_mention; intros ?; apply Hm; [by left|by right]. Qed.
-
-Lemma pending_true s c : pending s c = true <-> exists q, get_link s c 0 = EReqInit :: q.
+  ~ mentions u (get_link s 0 c) ->
+  cm s c u = negb (tb s c u) && bool_decide (u ∈ get_ents s c).
 Proof.
-  unfold pending. destruct (get_link s c 0) as [|m q].
-  - split; [done|]. intros [q' Hq']. discriminate Hq'.
-  - destruct m as [v|v| |]; (split; [try done|]); try (intros [q' Hq']; discriminate Hq').
-    + intros _. by eexists.
-    + done.
-Qed.
-
-(* after popping the head of (c,0), c is no longer pending *)
-Lemma pending_after_pop s s' c m q :
-  sinv s -> get_link s c 0 = m :: q -> get_link s' c 0 = q -> pending s' c = false.
-Proof.
-  intros Hinv Hhd Hl. pose proof (s_req _ Hinv c) as Hr. rewrite Hhd in Hr. simpl in Hr.
-  destruct (pending s' c) eqn:Hp; [|done]. destruct (proj1 (pending_true _ _) Hp) as [q' Hq'].
-  subst q. rewrite Hq' in Hr. exfalso. apply Hr. apply elem_of_list_here.
-Qed.
-
-Lemma pending_snoc s s' c x :
-  x <> EReqInit -> get_link s' c 0 = get_link s c 0 ++ [x] -> pending s' c = true -> pending s c = true.
-Proof.
-  intros Hx Hl. rewrite !pending_true. intros [q Hq]. rewrite Hl in Hq.
-  destruct (get_link s c 0) as [|m q0]; simpl in Hq; [by injection Hq|].
-  injection Hq as -> ?. by eexists.
+  intros Hm. unfold cm. f_equal.
+  apply after_msgs_no_mention; intros ?; apply Hm; [by left|by right].
 Qed.
 
 Record cinv (s : astate) : Prop := {
   (* a synced client will hold everything the host holds, unless its own delete is on its way *)
   c_A : forall c u, c ∈ conn s -> c ∈ synced s -> u ∈ get_ents s 0 ->
         cm s c u = true \/ EDelete u ∈ get_link s c 0;
-  (* a client's own delete in flight: it will not hold u, and u is not re-sent by its snapshot *)
-  c_B1 : forall c u, c ∈ conn s -> EDelete u ∈ get_link s c 0 ->
-         cm s c u = false /\ (pending s c = true -> u ∉ get_ents s 0);
   (* whatever a client will hold, the host holds or is about to learn from that client *)
-  c_B2 : forall c u, c ∈ conn s -> cm s c u = true ->
-         u ∈ get_ents s 0 \/ ESpawn u ∈ get_link s c 0;
+  c_B : forall c u, c ∈ conn s -> cm s c u = true ->
+        u ∈ get_ents s 0 \/ ESpawn u ∈ get_link s c 0;
+  (* a tombstone for something the host holds is justified by an EDelete in flight (also before the
+     snapshot is built: the snapshot's ESpawn u will be ignored, the EDelete behind the request
+     removes u from the host) *)
+  c_T : forall c u, c ∈ conn s -> u ∈ get_tomb s c -> u ∈ get_ents s 0 ->
+        EDelete u ∈ get_link s c 0;
 }.
 
 Lemma cinv_init : cinv init.
-Proof. constructor; simpl; intros c u Hc; set_solver. Qed.
+Proof.
+  constructor; simpl; intros c u Hc; by apply elem_of_nil in Hc.
+Qed.
 
 Lemma conn_ne0 s c : sinv s -> c ∈ conn s -> c <> 0.
 Proof. intros Hinv Hc ->. by apply (s_host _ Hinv). Qed.
-
-Lemma cinv_step_spawn s s' p u :
-  sinv s -> cinv s -> step s (EvSpawn p u) = Some s' -> cinv s'.
-Proof.
-  intros Hinv Hcinv Hstep. pose proof (s_host _ Hinv) as H0.
-  assert (A : astep s s' (EvSpawn p u)) by (apply step_astep; [apply Hinv|done]).
-  inversion A as [p0 u0 Hon Hfresh HE HL Hc Hs Hu| | | | | | | |]; subst p0 u0. clear A.
-  assert (Hnm : forall a b, ~ mentions u (get_link s a b)).
-  { intros a b Hm. apply Hfresh. eapply s_used_l; eauto. }
-  assert (Hne : forall p', u ∉ get_ents s p').
-  { intros p' Hm. apply Hfresh. eapply s_used_e; eauto. }
-  destruct (decide (p = 0)) as [->|Hp].
-  - (* the host spawns u *)
-    assert (HH : get_ents s' 0 = u :: get_ents s 0).
-    { rewrite HE. by rewrite decide_True. }
-    assert (Hcm : forall c' w, c' ∈ conn s -> cm s' c' w = after_msg w (cm s c' w) (ESpawn u)).
-    { intros c' w Hc'. pose proof (conn_ne0 _ _ Hinv Hc') as Hne0. apply cm_snoc.
-      - rewrite HE. by rewrite decide_False.
-      - rewrite HL. rewrite decide_True by done. by rewrite decide_True. }
-    assert (HU : forall c', c' <> 0 -> get_link s' c' 0 = get_link s c' 0).
-    { intros c' Hc'. rewrite HL. rewrite decide_True by done. rewrite decide_False; [done|]. tauto. }
-    constructor.
-    + intros c' w Hc' Hs' Hin. rewrite Hc in Hc'. rewrite Hs in Hs'.
-      pose proof (conn_ne0 _ _ Hinv Hc') as Hne0. rewrite Hcm, HU by done. simpl.
-      destruct (decide (u = w)) as [->|Huw]; [by left|].
-      apply (c_A _ Hcinv); try done. rewrite HH in Hin. set_solver.
-    + intros c' w Hc' Hde. rewrite Hc in Hc'.
-      pose proof (conn_ne0 _ _ Hinv Hc') as Hne0. rewrite HU in Hde by done.
-      destruct (c_B1 _ Hcinv _ _ Hc' Hde) as [Hf Hpd].
-      assert (Huw : u <> w). { intros ->. apply (Hnm c' 0). by right. }
-      split.
-      * rewrite Hcm by done. simpl. by rewrite decide_False.
-      * unfold pending. rewrite HU by done. intros Hp'. rewrite HH. specialize (Hpd Hp'). set_solver.
-    + intros c' w Hc' Ht. rewrite Hc in Hc'.
-      pose proof (conn_ne0 _ _ Hinv Hc') as Hne0. rewrite Hcm in Ht by done. simpl in Ht.
-      rewrite HH, HU by done.
-      destruct (decide (u = w)) as [->|Huw]; [left; set_solver|].
-      destruct (c_B2 _ Hcinv _ _ Hc' Ht); [left; set_solver|by right].
-  - (* client p spawns u *)
-    assert (HH : get_ents s' 0 = get_ents s 0).
-    { rewrite HE. by rewrite decide_False. }
-    assert (HD : forall c', get_link s' 0 c' = get_link s 0 c').
-    { intros c'. rewrite HL. rewrite decide_False by done. rewrite decide_False; [done|].
-      intros [= ->]. done. }
-    assert (HU : forall c', get_link s' c' 0 =
-              if decide (c' = p) then get_link s p 0 ++ [ESpawn u] else get_link s c' 0).
-    { intros c'. rewrite HL. rewrite decide_False by done.
-      repeat case_decide; simplify_eq; done. }
-    assert (Hcm : forall c' w,
-              (c' = p /\ w = u /\ cm s' c' w = true) \/ (w <> u /\ cm s' c' w = cm s c' w) \/
-              (c' <> p /\ cm s' c' w = cm s c' w)).
-    { intros c' w. destruct (decide (c' = p)) as [->|Hcp].
-      - destruct (decide (w = u)) as [->|Hwu].
-        + left. split; [done|]. split; [done|]. rewrite cm_no_mention by (rewrite HD; apply Hnm).
-          apply bool_decide_eq_true_2. rewrite HE. rewrite decide_True by done. set_solver.
-        + right. left. split; [done|]. unfold cm. rewrite HD, HE. rewrite decide_True by done.
-          f_equal. apply bool_decide_ext. set_solver.
-      - right. right. split; [done|]. apply cm_same; [|done]. rewrite HE. by rewrite decide_False. }
-    constructor.
-    + intros c' w Hc' Hs' Hin. rewrite Hc in Hc'. rewrite Hs in Hs'. rewrite HH in Hin.
-      rewrite HU. destruct (c_A _ Hcinv _ _ Hc' Hs' Hin) as [Ht|Hde].
-      * left. destruct (Hcm c' w) as [(_ & _ & ?)|[(_ & ?)|(_ & ?)]]; congruence.
-      * right. case_decide; subst; set_solver.
-    + intros c' w Hc' Hde. rewrite Hc in Hc'.
-      assert (Hde' : EDelete w ∈ get_link s c' 0).
-      { rewrite HU in Hde. case_decide; subst; [|done]. apply elem_of_snoc in Hde as [?|[=]]. done. }
-      destruct (c_B1 _ Hcinv _ _ Hc' Hde') as [Hf Hpd].
-      assert (Huw : w <> u). { intros ->. apply (Hnm c' 0). by right. }
-      split.
-      * destruct (Hcm c' w) as [(_ & ? & _)|[(_ & ?)|(_ & ?)]]; congruence.
-      * intros Hp'. rewrite HH. apply Hpd. destruct (decide (c' = p)) as [->|Hcp].
-        -- eapply (pending_snoc s s' p (ESpawn u)); [done| |done]. rewrite HU. by rewrite decide_True.
-        -- unfold pending in *. rewrite HU in Hp'. by rewrite decide_False in Hp'.
-    + intros c' w Hc' Ht. rewrite Hc in Hc'. rewrite HH, HU.
-      destruct (Hcm c' w) as [(-> & -> & _)|[(_ & Heq)|(_ & Heq)]].
-      * right. rewrite decide_True by done. set_solver.
-      * rewrite Heq in Ht. destruct (c_B2 _ Hcinv _ _ Hc' Ht); [by left|right].
-        case_decide; subst; set_solver.
-      * rewrite Heq in Ht. destruct (c_B2 _ Hcinv _ _ Hc' Ht); [by left|right].
-        case_decide; subst; set_solver.
-Qed.
 
 Lemma remove1_elem u l w : NoDup l -> w ∈ remove1 u l <-> w ∈ l /\ w <> u.
 Proof.
@@ -1294,408 +1523,441 @@ Proof.
   - intros [? ?]. by apply remove1_other.
 Qed.
 
-Lemma cinv_step_despawn s s' p u :
-  sinv s -> cinv s -> bad_S18 s (EvDespawn p u) = false ->
-  step s (EvDespawn p u) = Some s' -> cinv s'.
+Lemma cinv_step_spawn s s' p u :
+  sinv s -> tinv s -> cinv s -> step s (EvSpawn p u) = Some s' -> cinv s'.
 Proof.
-  intros Hinv Hcinv Hbad Hstep. pose proof (s_host _ Hinv) as H0.
-  assert (A : astep s s' (EvDespawn p u)) by (apply step_astep; [apply Hinv|done]).
-  inversion A as [|p0 u0 Hon Hin HE HL (Hc & Hs & Hu)| | | | | | |]; subst p0 u0. clear A.
-  pose proof (s_nd_ents _ Hinv) as Hnd.
+  intros Hinv Htinv Hcinv Hstep. pose proof (s_host _ Hinv) as H0.
+  assert (A : astep s s' (EvSpawn p u)) by (apply step_astep; [apply Hinv|done]).
+  inversion A as [p0 u0 Hon Hfresh HE HL Hc Hs Hu HT| | | | | | | |]; subst p0 u0. clear A.
+  assert (Hnm : forall a b, ~ mentions u (get_link s a b)).
+  { intros a b Hm. apply Hfresh. eapply s_used_l; eauto. }
+  assert (Hne : forall p', u ∉ get_ents s p').
+  { intros p' Hm. apply Hfresh. eapply s_used_e; eauto. }
+  assert (Hnt : forall c, u ∉ get_tomb s c).
+  { intros c Hin. apply Hfresh. by eapply (t_used _ Htinv). }
+  pose proof (op_links_up _ _ _ _ HL H0) as HU.
+  pose proof (op_links_down _ _ _ _ HL) as HD.
   destruct (decide (p = 0)) as [->|Hp].
-  - (* the host despawns u *)
-    assert (HH : get_ents s' 0 = remove1 u (get_ents s 0)).
-    { rewrite HE. by rewrite decide_True. }
-    assert (Hcm : forall c' w, c' ∈ conn s -> cm s' c' w = after_msg w (cm s c' w) (EDelete u)).
-    { intros c' w Hc'. pose proof (conn_ne0 _ _ Hinv Hc') as Hne0. apply cm_snoc.
-      - rewrite HE. by rewrite decide_False.
-      - rewrite HL. rewrite decide_True by done. by rewrite decide_True. }
-    assert (HU : forall c', c' <> 0 -> get_link s' c' 0 = get_link s c' 0).
-    { intros c' Hc'. rewrite HL. rewrite decide_True by done. rewrite decide_False; [done|]. tauto. }
-    constructor.
-    + intros c' w Hc' Hs' Hw. rewrite Hc in Hc'. rewrite Hs in Hs'.
-      pose proof (conn_ne0 _ _ Hinv Hc') as Hne0. rewrite Hcm, HU by done. simpl.
-      rewrite HH in Hw. apply remove1_elem in Hw as [Hw Hwu]; [|done].
-      rewrite decide_False by done. by apply (c_A _ Hcinv).
-    + intros c' w Hc' Hde. rewrite Hc in Hc'.
-      pose proof (conn_ne0 _ _ Hinv Hc') as Hne0. rewrite HU in Hde by done.
-      destruct (c_B1 _ Hcinv _ _ Hc' Hde) as [Hf Hpd]. split.
-      * rewrite Hcm by done. simpl. rewrite Hf. by case_decide.
-      * unfold pending. rewrite HU by done. intros Hp'. rewrite HH. specialize (Hpd Hp').
-        intros ?%remove1_subseteq. done.
-    + intros c' w Hc' Ht. rewrite Hc in Hc'.
-      pose proof (conn_ne0 _ _ Hinv Hc') as Hne0. rewrite Hcm in Ht by done. simpl in Ht.
-      rewrite HH, HU by done. case_decide as Huw; [done|].
-      destruct (c_B2 _ Hcinv _ _ Hc' Ht); [left|by right]. apply remove1_other; [done|]. by intros ->.
-  - (* client p despawns u *)
-    simpl in Hbad. rewrite bool_decide_eq_true_2 in Hbad by done. simpl in Hbad.
-    apply orb_false_iff in Hbad as [Hbad1 Hbad2].
-    assert (HH : get_ents s' 0 = get_ents s 0).
-    { rewrite HE. by rewrite decide_False. }
-    assert (HD : forall c', get_link s' 0 c' = get_link s 0 c').
-    { intros c'. rewrite HL. rewrite decide_False by done. rewrite decide_False; [done|].
-      intros [= ->]. done. }
-    assert (HU : forall c', get_link s' c' 0 =
-              if decide (c' = p) then get_link s p 0 ++ [EDelete u] else get_link s c' 0).
-    { intros c'. rewrite HL. rewrite decide_False by done.
-      repeat case_decide; simplify_eq; done. }
-    assert (Hcm : forall c' w,
-              (c' = p /\ w = u /\ cm s' c' w = false) \/ cm s' c' w = cm s c' w).
-    { intros c' w. destruct (decide (c' = p)) as [->|Hcp].
-      - destruct (decide (w = u)) as [->|Hwu].
-        + left. split; [done|]. split; [done|]. unfold cm. rewrite HD, HE.
-          rewrite decide_True by done. rewrite bool_decide_eq_false_2; [done|].
-          by apply remove1_not_in.
-        + right. unfold cm. rewrite HD, HE. rewrite decide_True by done.
-          f_equal. apply bool_decide_ext. rewrite remove1_elem by done. tauto.
-      - right. apply cm_same; [|done]. rewrite HE. by rewrite decide_False. }
-    assert (Hpend : forall c', pending s' c' = true -> pending s c' = true).
-    { intros c' Hp'. destruct (decide (c' = p)) as [->|Hcp].
-      - eapply (pending_snoc s s' p (EDelete u)); [done| |done]. rewrite HU. by rewrite decide_True.
-      - unfold pending in *. rewrite HU in Hp'. by rewrite decide_False in Hp'. }
-    constructor.
-    + intros c' w Hc' Hs' Hw. rewrite Hc in Hc'. rewrite Hs in Hs'. rewrite HH in Hw.
-      rewrite HU. destruct (Hcm c' w) as [(-> & -> & _)|Heq].
-      * right. rewrite decide_True by done. apply elem_of_app. right. apply elem_of_list_here.
-      * rewrite Heq. destruct (c_A _ Hcinv _ _ Hc' Hs' Hw) as [Ht|Hde]; [by left|right].
-        destruct (decide (c' = p)) as [->|?]; [apply elem_of_app; by left|done].
-    + intros c' w Hc' Hde. rewrite Hc in Hc'. rewrite HH.
-      destruct (Hcm c' w) as [(-> & -> & Hf)|Heq].
-      * split; [done|]. intros Hp'%Hpend. rewrite Hp' in Hbad2. simpl in Hbad2.
-        by apply bool_decide_eq_false in Hbad2.
-      * assert (Hcase : (c' = p /\ w = u) \/ EDelete w ∈ get_link s c' 0).
-        { rewrite HU in Hde. destruct (decide (c' = p)) as [->|?]; [|by right].
-          apply elem_of_snoc in Hde as [?|[= ->]]; [by right|by left]. }
-        destruct Hcase as [[-> ->]|Hde'].
-        -- split.
-           ++ rewrite Heq. unfold cm.
-              destruct (decide (u ∈ get_ents s p)) as [_|Hn]; [|done].
-              (* cm s' = false by the first disjunct computation *)
-              unfold cm in Heq. rewrite HD, HE in Heq. rewrite decide_True in Heq by done.
-              rewrite (bool_decide_eq_false_2 (u ∈ remove1 u (get_ents s p))) in Heq
-                by (by apply remove1_not_in).
-              rewrite <- Heq. done.
-           ++ intros Hp'%Hpend. rewrite Hp' in Hbad2. simpl in Hbad2.
-              by apply bool_decide_eq_false in Hbad2.
-        -- destruct (c_B1 _ Hcinv _ _ Hc' Hde') as [Hf Hpd]. split; [by rewrite Heq|].
-           intros Hp'%Hpend. by apply Hpd.
-    + intros c' w Hc' Ht. rewrite Hc in Hc'. rewrite HH, HU.
-      destruct (Hcm c' w) as [(_ & _ & Hf)|Heq]; [congruence|].
-      rewrite Heq in Ht. destruct (c_B2 _ Hcinv _ _ Hc' Ht); [by left|right].
-      destruct (decide (c' = p)) as [->|?]; [apply elem_of_app; by left|done].
-Qed.
-
-Ltac dsimp := repeat match goal with
-  | H : context [decide (?x = ?x)] |- _ => rewrite (decide_True (P := x = x)) in H by done
-  | |- context [decide (?x = ?x)] => rewrite (decide_True (P := x = x)) by done
-  | Hn : ?x <> ?y, H : context [decide (?x = ?y)] |- _ => rewrite (decide_False (P := x = y)) in H by done
-  | Hn : ?x <> ?y |- context [decide (?x = ?y)] => rewrite (decide_False (P := x = y)) by done
-  end.
-
-Lemma after_msg_false_delete w u : after_msg w false (EDelete u) = false.
-Proof. simpl. by case_decide. Qed.
-
-Lemma cinv_step_deliver_host s s' c :
-  sinv s -> cinv s -> step s (EvDeliver c 0) = Some s' -> cinv s'.
-Proof.
-  intros Hinv Hcinv Hstep. pose proof (s_host _ Hinv) as H0.
-  pose proof (s_nd_ents _ Hinv) as Hnd.
-  assert (A : astep s s' (EvDeliver c 0)) by (apply step_astep; [apply Hinv|done]).
-  inversion A as [| |c1 u q Hc0 Hhd HE HL (Hc & Hs & Hu)
-                    |c1 u q Hc0 Hhd HE HL (Hc & Hs & Hu)
-                    |c1 q Hc0 Hhd HE HL Hc Hs Hu
-                    |c1 q Hc0 Hhd HE HL (Hc & Hs & Hu)
-                    |c1 m q Hc0 Hhd HE HL (Hc & Hs & Hu)| |]; subst; clear A; [| | | |done].
-  - (* host receives ESpawn u from c *)
-    assert (Hcc : c ∈ conn s) by (apply link_nonempty_conn; [done|done|by rewrite Hhd]).
-    assert (Hq : forall m, m ∈ q -> m ∈ get_link s c 0) by (rewrite Hhd; set_solver).
-    assert (Hsp : ESpawn u ∈ get_link s c 0) by (rewrite Hhd; set_solver).
-    destruct (s_pa _ Hinv _ _ Hsp) as (Q1 & Q2 & Q3 & Q4).
+  - (* the host spawns u *)
     assert (HH : get_ents s' 0 = u :: get_ents s 0).
     { rewrite HE. by rewrite decide_True. }
     assert (HEc : forall c', c' <> 0 -> get_ents s' c' = get_ents s c').
     { intros c' Hc'. rewrite HE. by rewrite decide_False. }
-    assert (HD : forall c', c' ∈ conn s -> get_link s' 0 c' =
-              if decide (c' = c) then get_link s 0 c' else get_link s 0 c' ++ [ESpawn u]).
-    { intros c' Hc'. rewrite HL. rewrite decide_False by (intros [= <- ?]; done).
-      destruct (decide (c' = c)) as [->|Hne]; dsimp.
-      - rewrite decide_False; [done|]. tauto.
-      - by rewrite ?decide_True. }
-    assert (HU : forall c', c' <> 0 -> get_link s' c' 0 =
-              if decide (c' = c) then q else get_link s c' 0).
-    { intros c' Hc'. rewrite HL. destruct (decide (c' = c)) as [->|Hne]; dsimp.
-      - by rewrite ?decide_True.
-      - rewrite decide_False by (intros [= ?]; done). rewrite decide_False; [done|]. tauto. }
-    assert (Hcm : forall c' w, c' ∈ conn s -> cm s' c' w =
-              if decide (c' = c) then cm s c' w else after_msg w (cm s c' w) (ESpawn u)).
-    { intros c' w Hc'. pose proof (conn_ne0 _ _ Hinv Hc') as Hne0.
-      destruct (decide (c' = c)) as [->|Hne]; dsimp.
-      - apply cm_same; [by apply HEc|]. rewrite HD by done. by rewrite decide_True.
-      - apply cm_snoc; [by apply HEc|]. rewrite HD by done. by rewrite decide_False. }
+    assert (HDc : forall c', c' ∈ conn s -> get_link s' 0 c' = get_link s 0 c' ++ [ESpawn u]).
+    { intros c' Hc'. rewrite HD by (by eapply conn_ne0). by rewrite decide_True. }
+    assert (HUc : forall c', get_link s' c' 0 = get_link s c' 0).
+    { intros c'. rewrite HU. rewrite decide_False; [done|]. tauto. }
+    assert (Hcm_eq : forall c', c' ∈ conn s -> cm s' c' u = true).
+    { intros c' Hc'. rewrite (cm_snoc_spawn s s' c' u); [|apply HT|apply HEc; by eapply conn_ne0|by apply HDc].
+      unfold tb. by rewrite (bool_decide_eq_false_2 _ (Hnt c')). }
+    assert (Hcm_ne : forall c' w, c' ∈ conn s -> w <> u -> cm s' c' w = cm s c' w).
+    { intros c' w Hc' Hwu. apply (cm_snoc_same s s' c' w (ESpawn u));
+        [apply HT|apply HEc; by eapply conn_ne0|by apply HDc|].
+      rewrite mentions_spawn. done. }
     constructor.
-    + intros c' w Hc' Hs' Hw. rewrite Hc in Hc'. rewrite Hs in Hs'.
-      pose proof (conn_ne0 _ _ Hinv Hc') as Hne0. rewrite Hcm, HU by done. rewrite HH in Hw.
-      destruct (decide (c' = c)) as [->|Hne]; dsimp.
-      * destruct (decide (w = u)) as [->|Hwu].
-        -- rewrite cm_no_mention by apply Q2. destruct Q4 as [Q4|Q4].
-           ++ left. by apply bool_decide_eq_true_2.
-           ++ right. rewrite Hhd in Q4. apply elem_of_cons in Q4 as [[=]|Q4]. done.
-        -- assert (Hw' : w ∈ get_ents s 0) by (apply elem_of_cons in Hw as [->|Hw]; done).
-           destruct (c_A _ Hcinv _ _ Hc' Hs' Hw') as [?|Hde]; [by left|right].
-           rewrite Hhd in Hde. apply elem_of_cons in Hde as [[=]|Hde]. done.
-      * simpl. destruct (decide (u = w)) as [->|Hwu]; [by left|].
-        apply (c_A _ Hcinv); try done. apply elem_of_cons in Hw as [->|Hw]; done.
-    + intros c' w Hc' Hde. rewrite Hc in Hc'.
-      pose proof (conn_ne0 _ _ Hinv Hc') as Hne0. rewrite HU in Hde by done. rewrite Hcm by done.
-      destruct (decide (c' = c)) as [->|Hne]; dsimp.
-      * destruct (c_B1 _ Hcinv _ _ Hc' (Hq _ Hde)) as [Hf Hpd]. split; [done|].
-        rewrite (pending_after_pop s s' c _ _ Hinv Hhd); [done|]. rewrite HU by done.
-        by rewrite decide_True.
-      * destruct (c_B1 _ Hcinv _ _ Hc' Hde) as [Hf Hpd].
-        assert (Hwu : u <> w). { intros ->. destruct (Q3 c' Hne) as [_ Q3b]. apply Q3b. by right. }
-        split.
-        -- simpl. by rewrite decide_False.
-        -- unfold pending. rewrite HU by done. rewrite decide_False by done.
-           intros Hp'. specialize (Hpd Hp'). rewrite HH. intros [->|Hin]%elem_of_cons; done.
-    + intros c' w Hc' Ht. rewrite Hc in Hc'.
-      pose proof (conn_ne0 _ _ Hinv Hc') as Hne0. rewrite Hcm in Ht by done. rewrite HH, HU by done.
-      destruct (decide (c' = c)) as [->|Hne]; dsimp.
-      * destruct (c_B2 _ Hcinv _ _ Hc' Ht) as [?|Hsw]; [left; by apply elem_of_list_further|].
-        rewrite Hhd in Hsw. apply elem_of_cons in Hsw as [[= ->]|?]; [left; by apply elem_of_list_here|by right].
-      * simpl in Ht. destruct (decide (u = w)) as [->|Hwu]; [left; by apply elem_of_list_here|].
-        destruct (c_B2 _ Hcinv _ _ Hc' Ht); [left; by apply elem_of_list_further|by right].
-  - (* host receives EDelete u from c *)
-    assert (Hcc : c ∈ conn s) by (apply link_nonempty_conn; [done|done|by rewrite Hhd]).
-    assert (Hq : forall m, m ∈ q -> m ∈ get_link s c 0) by (rewrite Hhd; set_solver).
-    assert (Hdu : EDelete u ∈ get_link s c 0) by (rewrite Hhd; set_solver).
-    destruct (c_B1 _ Hcinv _ _ Hcc Hdu) as [Hcu _].
+    + intros c' w Hc' Hs' Hin. rewrite Hc in Hc'. rewrite Hs in Hs'.
+      destruct (decide (w = u)) as [->|Hwu]; [left; by apply Hcm_eq|].
+      rewrite Hcm_ne, HUc by done. apply (c_A _ Hcinv); try done.
+      rewrite HH in Hin. apply elem_of_cons in Hin as [?|?]; done.
+    + intros c' w Hc' Ht. rewrite Hc in Hc'. rewrite HH, HUc.
+      destruct (decide (w = u)) as [->|Hwu]; [left; apply elem_of_list_here|].
+      rewrite Hcm_ne in Ht by done.
+      destruct (c_B _ Hcinv _ _ Hc' Ht); [left; by apply elem_of_list_further|by right].
+    + intros c' w Hc' Hw Hin. rewrite Hc in Hc'. rewrite HT in Hw. rewrite HUc.
+      rewrite HH in Hin. apply elem_of_cons in Hin as [->|Hin]; [by destruct (Hnt c')|].
+      by apply (c_T _ Hcinv).
+  - (* client p spawns u *)
+    assert (HH : get_ents s' 0 = get_ents s 0).
+    { rewrite HE. by rewrite decide_False. }
+    assert (HDc : forall c', c' <> 0 -> get_link s' 0 c' = get_link s 0 c').
+    { intros c' Hc'. rewrite HD by done. rewrite decide_False; [done|]. tauto. }
+    assert (HUm : forall c' x, x ∈ get_link s c' 0 -> x ∈ get_link s' c' 0).
+    { intros c' x Hx. rewrite HU. destruct (decide _); [|done]. apply elem_of_app. by left. }
+    assert (HUp : ESpawn u ∈ get_link s' p 0).
+    { rewrite HU. rewrite decide_True by done. apply elem_of_app. right. apply elem_of_list_here. }
+    assert (Hcm_other : forall c' w, c' <> 0 -> c' <> p \/ w <> u -> cm s' c' w = cm s c' w).
+    { intros c' w Hc0 Hor. destruct (decide (c' = p)) as [->|Hcp].
+      - destruct Hor as [?|Hwu]; [done|]. unfold cm, tb. rewrite HT, HDc, HE by done.
+        rewrite decide_True by done.
+        rewrite (bool_decide_ext (w ∈ u :: get_ents s p) (w ∈ get_ents s p)); [done|].
+        rewrite elem_of_cons. split; [intros [?|?]; done|by right].
+      - apply cm_same; [apply HT| |by apply HDc]. rewrite HE. by rewrite decide_False. }
+    constructor.
+    + intros c' w Hc' Hs' Hin. rewrite Hc in Hc'. rewrite Hs in Hs'. rewrite HH in Hin.
+      assert (Hwu : w <> u) by (intros ->; by apply (Hne 0)).
+      rewrite Hcm_other; [|by eapply conn_ne0|by right].
+      destruct (c_A _ Hcinv _ _ Hc' Hs' Hin) as [?|?]; [by left|right; by apply HUm].
+    + intros c' w Hc' Ht. rewrite Hc in Hc'. rewrite HH.
+      destruct (decide (c' = p /\ w = u)) as [[-> ->]|Hn]; [by right|].
+      rewrite Hcm_other in Ht; [|by eapply conn_ne0|].
+      * destruct (c_B _ Hcinv _ _ Hc' Ht); [by left|right; by apply HUm].
+      * destruct (decide (c' = p)); [|by left]. right. intros ->. apply Hn. done.
+    + intros c' w Hc' Hw Hin. rewrite Hc in Hc'. rewrite HT in Hw. rewrite HH in Hin.
+      apply HUm. by apply (c_T _ Hcinv).
+Qed.
+
+Lemma cinv_step_despawn s s' p u :
+  sinv s -> tinv s -> cinv s -> step s (EvDespawn p u) = Some s' -> cinv s'.
+Proof.
+  intros Hinv Htinv Hcinv Hstep. pose proof (s_host _ Hinv) as H0.
+  assert (A : astep s s' (EvDespawn p u)) by (apply step_astep; [apply Hinv|done]).
+  inversion A as [|p0 u0 Hon Hin HE HL (Hc & Hs & Hu) HT| | | | | | |]; subst p0 u0. clear A.
+  pose proof (s_nd_ents _ Hinv) as Hnd.
+  pose proof (op_links_up _ _ _ _ HL H0) as HU.
+  pose proof (op_links_down _ _ _ _ HL) as HD.
+  destruct (decide (p = 0)) as [->|Hp].
+  - (* the host despawns u *)
+    assert (HT0 : forall c', get_tomb s' c' = get_tomb s c').
+    { intros c'. rewrite HT. rewrite decide_False; [done|]. tauto. }
     assert (HH : get_ents s' 0 = remove1 u (get_ents s 0)).
     { rewrite HE. by rewrite decide_True. }
     assert (HEc : forall c', c' <> 0 -> get_ents s' c' = get_ents s c').
     { intros c' Hc'. rewrite HE. by rewrite decide_False. }
-    assert (HD : forall c', c' ∈ conn s -> get_link s' 0 c' =
-              if decide (c' = c) then get_link s 0 c' else get_link s 0 c' ++ [EDelete u]).
-    { intros c' Hc'. rewrite HL. rewrite decide_False by (intros [= <- ?]; done).
-      destruct (decide (c' = c)) as [->|Hne]; dsimp.
-      - rewrite decide_False; [done|]. tauto.
-      - by rewrite ?decide_True. }
-    assert (HU : forall c', c' <> 0 -> get_link s' c' 0 =
-              if decide (c' = c) then q else get_link s c' 0).
-    { intros c' Hc'. rewrite HL. destruct (decide (c' = c)) as [->|Hne]; dsimp.
-      - by rewrite ?decide_True.
-      - rewrite decide_False by (intros [= ?]; done). rewrite decide_False; [done|]. tauto. }
-    assert (Hcm : forall c' w, c' ∈ conn s -> cm s' c' w =
-              if decide (c' = c) then cm s c' w else after_msg w (cm s c' w) (EDelete u)).
-    { intros c' w Hc'. pose proof (conn_ne0 _ _ Hinv Hc') as Hne0.
-      destruct (decide (c' = c)) as [->|Hne]; dsimp.
-      - apply cm_same; [by apply HEc|]. rewrite HD by done. by rewrite decide_True.
-      - apply cm_snoc; [by apply HEc|]. rewrite HD by done. by rewrite decide_False. }
+    assert (HDc : forall c', c' ∈ conn s -> get_link s' 0 c' = get_link s 0 c' ++ [EDelete u]).
+    { intros c' Hc'. rewrite HD by (by eapply conn_ne0). by rewrite decide_True. }
+    assert (HUc : forall c', get_link s' c' 0 = get_link s c' 0).
+    { intros c'. rewrite HU. rewrite decide_False; [done|]. tauto. }
+    assert (Hcm_eq : forall c', c' ∈ conn s -> cm s' c' u = false).
+    { intros c' Hc'. apply (cm_snoc_delete s s' c' u); [apply HT0|apply HEc; by eapply conn_ne0|by apply HDc]. }
+    assert (Hcm_ne : forall c' w, c' ∈ conn s -> w <> u -> cm s' c' w = cm s c' w).
+    { intros c' w Hc' Hwu. apply (cm_snoc_same s s' c' w (EDelete u));
+        [apply HT0|apply HEc; by eapply conn_ne0|by apply HDc|].
+      rewrite mentions_delete. done. }
     constructor.
     + intros c' w Hc' Hs' Hw. rewrite Hc in Hc'. rewrite Hs in Hs'.
-      pose proof (conn_ne0 _ _ Hinv Hc') as Hne0. rewrite Hcm, HU by done. rewrite HH in Hw.
-      apply remove1_elem in Hw as [Hw Hwu]; [|done].
-      destruct (decide (c' = c)) as [->|Hne]; dsimp.
-      * destruct (c_A _ Hcinv _ _ Hc' Hs' Hw) as [?|Hde]; [by left|right].
-        rewrite Hhd in Hde. apply elem_of_cons in Hde as [[= ->]|?]; done.
-      * simpl. rewrite decide_False by done. by apply (c_A _ Hcinv).
-    + intros c' w Hc' Hde. rewrite Hc in Hc'.
-      pose proof (conn_ne0 _ _ Hinv Hc') as Hne0. rewrite HU in Hde by done. rewrite Hcm by done.
-      destruct (decide (c' = c)) as [->|Hne]; dsimp.
-      * destruct (c_B1 _ Hcinv _ _ Hc' (Hq _ Hde)) as [Hf Hpd]. split; [done|].
-        rewrite (pending_after_pop s s' c _ _ Hinv Hhd); [done|]. rewrite HU by done.
-        by rewrite decide_True.
-      * destruct (c_B1 _ Hcinv _ _ Hc' Hde) as [Hf Hpd]. split.
-        -- rewrite Hf. apply after_msg_false_delete.
-        -- unfold pending. rewrite HU by done. rewrite decide_False by done.
-           intros Hp'. specialize (Hpd Hp'). rewrite HH. intros ?%remove1_subseteq. done.
-    + intros c' w Hc' Ht. rewrite Hc in Hc'.
-      pose proof (conn_ne0 _ _ Hinv Hc') as Hne0. rewrite Hcm in Ht by done. rewrite HH, HU by done.
-      destruct (decide (c' = c)) as [->|Hne]; dsimp.
-      * assert (Hwu : w <> u) by (intros ->; congruence).
-        destruct (c_B2 _ Hcinv _ _ Hc' Ht) as [?|Hsw]; [left; by apply remove1_other|].
-        rewrite Hhd in Hsw. apply elem_of_cons in Hsw as [[=]|?]. by right.
-      * simpl in Ht. destruct (decide (u = w)) as [->|Hwu]; [done|].
-        destruct (c_B2 _ Hcinv _ _ Hc' Ht); [left|by right]. apply remove1_other; [done|]. by intros ->.
-  - (* host receives EReqInit from c *)
+      rewrite HH in Hw. apply remove1_elem in Hw as [Hw Hwu]; [|done].
+      rewrite Hcm_ne, HUc by done. by apply (c_A _ Hcinv).
+    + intros c' w Hc' Ht. rewrite Hc in Hc'. rewrite HH, HUc.
+      destruct (decide (w = u)) as [->|Hwu]; [by rewrite Hcm_eq in Ht|].
+      rewrite Hcm_ne in Ht by done.
+      destruct (c_B _ Hcinv _ _ Hc' Ht); [left; by apply remove1_other|by right].
+    + intros c' w Hc' Hw Hin'. rewrite Hc in Hc'. rewrite HT0 in Hw. rewrite HUc.
+      rewrite HH in Hin'. apply remove1_subseteq in Hin'. by apply (c_T _ Hcinv).
+  - (* client p despawns u: tombstone + EDelete *)
+    assert (HTp : get_tomb s' p = u :: get_tomb s p).
+    { rewrite HT. by rewrite decide_True. }
+    assert (HTo : forall c', c' <> p -> get_tomb s' c' = get_tomb s c').
+    { intros c' Hne. rewrite HT. rewrite decide_False; [done|]. tauto. }
+    assert (HH : get_ents s' 0 = get_ents s 0).
+    { rewrite HE. by rewrite decide_False. }
+    assert (HDc : forall c', c' <> 0 -> get_link s' 0 c' = get_link s 0 c').
+    { intros c' Hc'. rewrite HD by done. rewrite decide_False; [done|]. tauto. }
+    assert (HUm : forall c' x, x ∈ get_link s c' 0 -> x ∈ get_link s' c' 0).
+    { intros c' x Hx. rewrite HU. destruct (decide _); [|done]. apply elem_of_app. by left. }
+    assert (HUp : EDelete u ∈ get_link s' p 0).
+    { rewrite HU. rewrite decide_True by done. apply elem_of_app. right. apply elem_of_list_here. }
+    assert (Hcm_pu : cm s' p u = false).
+    { apply cm_tomb. rewrite HTp. apply elem_of_list_here. }
+    assert (Hcm_other : forall c' w, c' <> 0 -> c' <> p \/ w <> u -> cm s' c' w = cm s c' w).
+    { intros c' w Hc0 Hor. destruct (decide (c' = p)) as [->|Hcp].
+      - destruct Hor as [?|Hwu]; [done|]. unfold cm, tb. rewrite HTp, HDc, HE by done.
+        rewrite decide_True by done.
+        rewrite (bool_decide_ext (w ∈ u :: get_tomb s p) (w ∈ get_tomb s p)).
+        + rewrite (bool_decide_ext (w ∈ remove1 u (get_ents s p)) (w ∈ get_ents s p)); [done|].
+          rewrite remove1_elem by done. tauto.
+        + rewrite elem_of_cons. split; [intros [?|?]; done|by right].
+      - apply cm_same; [by apply HTo| |by apply HDc]. rewrite HE. by rewrite decide_False. }
+    assert (Hpair : forall c' w, (c' = p /\ w = u) \/ (c' <> p \/ w <> u)).
+    { intros c' w. destruct (decide (c' = p)); [|by right; left].
+      destruct (decide (w = u)); [by left|by right; right]. }
+    constructor.
+    + intros c' w Hc' Hs' Hw. rewrite Hc in Hc'. rewrite Hs in Hs'. rewrite HH in Hw.
+      destruct (Hpair c' w) as [[-> ->]|Hor]; [by right|].
+      rewrite Hcm_other; [|by eapply conn_ne0|done].
+      destruct (c_A _ Hcinv _ _ Hc' Hs' Hw) as [?|?]; [by left|right; by apply HUm].
+    + intros c' w Hc' Ht. rewrite Hc in Hc'. rewrite HH.
+      destruct (Hpair c' w) as [[-> ->]|Hor]; [by rewrite Hcm_pu in Ht|].
+      rewrite Hcm_other in Ht; [|by eapply conn_ne0|done].
+      destruct (c_B _ Hcinv _ _ Hc' Ht); [by left|right; by apply HUm].
+    + intros c' w Hc' Hw Hin'. rewrite Hc in Hc'. rewrite HH in Hin'.
+      destruct (decide (c' = p)) as [->|Hcp].
+      * rewrite HTp in Hw. apply elem_of_cons in Hw as [->|Hw]; [done|].
+        apply HUm. by apply (c_T _ Hcinv).
+      * rewrite HTo in Hw by done. apply HUm. by apply (c_T _ Hcinv).
+Qed.
+
+Lemma cinv_step_deliver_host s s' c :
+  sinv s -> tinv s -> cinv s -> step s (EvDeliver c 0) = Some s' -> cinv s'.
+Proof.
+  intros Hinv Htinv Hcinv Hstep. pose proof (s_host _ Hinv) as H0.
+  pose proof (s_nd_ents _ Hinv) as Hnd.
+  assert (A : astep s s' (EvDeliver c 0)) by (apply step_astep; [apply Hinv|done]).
+  inversion A as [| |c1 u q Hc0 Hhd HE HL (Hc & Hs & Hu) HT
+                    |c1 u q Hc0 Hhd HE HL (Hc & Hs & Hu) HT
+                    |c1 q Hc0 Hhd HE HL Hc Hs Hu HT
+                    |c1 q Hc0 Hhd HE HL (Hc & Hs & Hu) HT
+                    |c1 m q Hc0 Hhd HE HL (Hc & Hs & Hu) HT| |]; subst; clear A; [| | | |done].
+  - (* host receives ESpawn u from c *)
     assert (Hcc : c ∈ conn s) by (apply link_nonempty_conn; [done|done|by rewrite Hhd]).
-    assert (Hq : forall m, m ∈ q -> m ∈ get_link s c 0) by (rewrite Hhd; set_solver).
-    assert (Hpc : pending s c = true) by (apply pending_true; by eexists).
-    assert (HD : forall c', get_link s' 0 c' =
-              if decide (c' = c) then get_link s 0 c ++ (ESpawn <$> get_ents s 0) ++ [EFinInit]
-              else get_link s 0 c').
-    { intros c'. rewrite HL. rewrite decide_False by (intros [= <- ?]; done).
-      destruct (decide (c' = c)) as [->|Hne]; dsimp.
-      - by rewrite ?decide_True.
-      - rewrite decide_False; [done|]. intros [= ?]. done. }
-    assert (HU : forall c', c' <> 0 -> get_link s' c' 0 =
-              if decide (c' = c) then q else get_link s c' 0).
-    { intros c' Hc'. rewrite HL. destruct (decide (c' = c)) as [->|Hne]; dsimp.
-      - by rewrite ?decide_True.
-      - rewrite decide_False by (intros [= ?]; done). rewrite decide_False; [done|].
-        intros [= ? ?]. done. }
-    assert (Hcm : forall c' w, cm s' c' w =
-              if decide (c' = c) then cm s c w || bool_decide (w ∈ get_ents s 0) else cm s c' w).
-    { intros c' w. destruct (decide (c' = c)) as [->|Hne]; dsimp.
-      - rewrite <- after_msgs_snapshot. apply cm_app; [apply HE|]. rewrite HD. by rewrite decide_True.
-      - apply cm_same; [apply HE|]. rewrite HD. by rewrite decide_False. }
+    assert (Hsp : ESpawn u ∈ get_link s c 0) by (rewrite Hhd; apply elem_of_list_here).
+    destruct (s_pa _ Hinv _ _ Hsp) as (Q1 & Q2 & Q3 & Q4).
+    pose proof (relay_links_up _ _ _ _ _ HL H0) as HU.
+    pose proof (relay_links_down _ _ _ _ _ HL Hc0) as HD.
+    assert (Hq : forall x, x ∈ get_link s c 0 -> x <> ESpawn u -> x ∈ q).
+    { intros x. rewrite Hhd. intros [->|?]%elem_of_cons; done. }
+    assert (HH : get_ents s' 0 = u :: get_ents s 0).
+    { rewrite HE. by rewrite decide_True. }
+    assert (HEc : forall c', c' <> 0 -> get_ents s' c' = get_ents s c').
+    { intros c' Hc'. rewrite HE. by rewrite decide_False. }
+    assert (HDc : get_link s' 0 c = get_link s 0 c).
+    { rewrite HD by done. rewrite decide_False; [done|]. tauto. }
+    assert (HDo : forall c', c' ∈ conn s -> c' <> c -> get_link s' 0 c' = get_link s 0 c' ++ [ESpawn u]).
+    { intros c' Hc' Hne. rewrite HD by (by eapply conn_ne0). by rewrite decide_True. }
+    assert (HUc : get_link s' c 0 = q) by (rewrite HU; by rewrite decide_True).
+    assert (HUo : forall c', c' <> c -> get_link s' c' 0 = get_link s c' 0).
+    { intros c' Hne. rewrite HU. by rewrite decide_False. }
+    assert (Hcm_c : forall w, cm s' c w = cm s c w).
+    { intros w. apply cm_same; [apply HT|by apply HEc|done]. }
+    assert (Hcm_eq : forall c', c' ∈ conn s -> c' <> c -> cm s' c' u = true).
+    { intros c' Hc' Hne.
+      rewrite (cm_snoc_spawn s s' c' u); [|apply HT|apply HEc; by eapply conn_ne0|by apply HDo].
+      unfold tb. rewrite bool_decide_eq_false_2; [done|]. by apply (t_pa _ Htinv c u c'). }
+    assert (Hcm_ne : forall c' w, c' ∈ conn s -> c' <> c -> w <> u -> cm s' c' w = cm s c' w).
+    { intros c' w Hc' Hne Hwu. apply (cm_snoc_same s s' c' w (ESpawn u));
+        [apply HT|apply HEc; by eapply conn_ne0|by apply HDo|].
+      rewrite mentions_spawn. done. }
+    constructor.
+    + intros c' w Hc' Hs' Hw. rewrite Hc in Hc'. rewrite Hs in Hs'. rewrite HH in Hw.
+      destruct (decide (c' = c)) as [->|Hne].
+      * rewrite Hcm_c, HUc. destruct (decide (w = u)) as [->|Hwu].
+        -- destruct Q4 as [Q4|Q4]; [left|right; by apply Hq].
+           rewrite cm_no_mention by apply Q2. rewrite (bool_decide_eq_true_2 _ Q4).
+           unfold tb. rewrite bool_decide_eq_false_2; [done|].
+           intros Htb. by apply (t_ents _ Htinv c u).
+        -- assert (Hw' : w ∈ get_ents s 0) by (apply elem_of_cons in Hw as [->|Hw]; done).
+           destruct (c_A _ Hcinv _ _ Hc' Hs' Hw') as [?|Hde]; [by left|right]. by apply Hq.
+      * rewrite HUo by done. destruct (decide (w = u)) as [->|Hwu]; [left; by apply Hcm_eq|].
+        rewrite Hcm_ne by done. apply (c_A _ Hcinv); try done.
+        apply elem_of_cons in Hw as [->|Hw]; done.
+    + intros c' w Hc' Ht. rewrite Hc in Hc'. rewrite HH.
+      destruct (decide (w = u)) as [->|Hwu]; [left; apply elem_of_list_here|].
+      destruct (decide (c' = c)) as [->|Hne].
+      * rewrite Hcm_c in Ht. rewrite HUc.
+        destruct (c_B _ Hcinv _ _ Hc' Ht) as [?|Hsw]; [left; by apply elem_of_list_further|].
+        right. apply Hq; [done|]. intros [= ->]. done.
+      * rewrite Hcm_ne in Ht by done. rewrite HUo by done.
+        destruct (c_B _ Hcinv _ _ Hc' Ht); [left; by apply elem_of_list_further|by right].
+    + intros c' w Hc' Hw Hin. rewrite Hc in Hc'. rewrite HT in Hw. rewrite HH in Hin.
+      destruct (decide (w = u)) as [->|Hwu].
+      * destruct (decide (c' = c)) as [->|Hne]; [|by destruct (t_pa _ Htinv c u c' Hsp Hne)].
+        rewrite HUc. destruct Q4 as [Q4|Q4]; [by destruct (t_ents _ Htinv c u Hw)|by apply Hq].
+      * assert (Hin' : w ∈ get_ents s 0) by (apply elem_of_cons in Hin as [->|Hin]; done).
+        pose proof (c_T _ Hcinv _ _ Hc' Hw Hin') as Hde.
+        destruct (decide (c' = c)) as [->|Hne]; [rewrite HUc; by apply Hq|by rewrite HUo].
+  - (* host receives EDelete u from c *)
+    assert (Hcc : c ∈ conn s) by (apply link_nonempty_conn; [done|done|by rewrite Hhd]).
+    assert (Hdu : EDelete u ∈ get_link s c 0) by (rewrite Hhd; apply elem_of_list_here).
+    pose proof (t_del _ Htinv _ _ Hdu) as Htu.
+    pose proof (relay_links_up _ _ _ _ _ HL H0) as HU.
+    pose proof (relay_links_down _ _ _ _ _ HL Hc0) as HD.
+    assert (Hq : forall x, x ∈ get_link s c 0 -> x <> EDelete u -> x ∈ q).
+    { intros x. rewrite Hhd. intros [->|?]%elem_of_cons; done. }
+    assert (HH : get_ents s' 0 = remove1 u (get_ents s 0)).
+    { rewrite HE. by rewrite decide_True. }
+    assert (HEc : forall c', c' <> 0 -> get_ents s' c' = get_ents s c').
+    { intros c' Hc'. rewrite HE. by rewrite decide_False. }
+    assert (HDc : get_link s' 0 c = get_link s 0 c).
+    { rewrite HD by done. rewrite decide_False; [done|]. tauto. }
+    assert (HDo : forall c', c' ∈ conn s -> c' <> c -> get_link s' 0 c' = get_link s 0 c' ++ [EDelete u]).
+    { intros c' Hc' Hne. rewrite HD by (by eapply conn_ne0). by rewrite decide_True. }
+    assert (HUc : get_link s' c 0 = q) by (rewrite HU; by rewrite decide_True).
+    assert (HUo : forall c', c' <> c -> get_link s' c' 0 = get_link s c' 0).
+    { intros c' Hne. rewrite HU. by rewrite decide_False. }
+    assert (Hcm_c : forall w, cm s' c w = cm s c w).
+    { intros w. apply cm_same; [apply HT|by apply HEc|done]. }
+    assert (Hcm_eq : forall c', c' ∈ conn s -> c' <> c -> cm s' c' u = false).
+    { intros c' Hc' Hne.
+      apply (cm_snoc_delete s s' c' u); [apply HT|apply HEc; by eapply conn_ne0|by apply HDo]. }
+    assert (Hcm_ne : forall c' w, c' ∈ conn s -> c' <> c -> w <> u -> cm s' c' w = cm s c' w).
+    { intros c' w Hc' Hne Hwu. apply (cm_snoc_same s s' c' w (EDelete u));
+        [apply HT|apply HEc; by eapply conn_ne0|by apply HDo|].
+      rewrite mentions_delete. done. }
+    constructor.
+    + intros c' w Hc' Hs' Hw. rewrite Hc in Hc'. rewrite Hs in Hs'. rewrite HH in Hw.
+      apply remove1_elem in Hw as [Hw Hwu]; [|done].
+      destruct (decide (c' = c)) as [->|Hne].
+      * rewrite Hcm_c, HUc. destruct (c_A _ Hcinv _ _ Hc' Hs' Hw) as [?|Hde]; [by left|right].
+        apply Hq; [done|]. intros [= ->]. done.
+      * rewrite Hcm_ne, HUo by done. by apply (c_A _ Hcinv).
+    + intros c' w Hc' Ht. rewrite Hc in Hc'. rewrite HH.
+      destruct (decide (c' = c)) as [->|Hne].
+      * rewrite Hcm_c in Ht. rewrite HUc.
+        assert (Hwu : w <> u).
+        { intros ->. by apply (cm_true_no_tomb _ _ _ Ht). }
+        destruct (c_B _ Hcinv _ _ Hc' Ht) as [?|Hsw]; [left; by apply remove1_other|].
+        right. by apply Hq.
+      * destruct (decide (w = u)) as [->|Hwu]; [by rewrite Hcm_eq in Ht|].
+        rewrite Hcm_ne in Ht by done. rewrite HUo by done.
+        destruct (c_B _ Hcinv _ _ Hc' Ht); [left; by apply remove1_other|by right].
+    + intros c' w Hc' Hw Hin. rewrite Hc in Hc'. rewrite HT in Hw. rewrite HH in Hin.
+      apply remove1_elem in Hin as [Hin Hwu]; [|done].
+      pose proof (c_T _ Hcinv _ _ Hc' Hw Hin) as Hde.
+      destruct (decide (c' = c)) as [->|Hne]; [|by rewrite HUo].
+      rewrite HUc. apply Hq; [done|]. intros [= ->]. done.
+  - (* host receives EReqInit from c: the snapshot *)
+    assert (Hcc : c ∈ conn s) by (apply link_nonempty_conn; [done|done|by rewrite Hhd]).
+    assert (Hq : forall x, x ∈ get_link s c 0 -> x <> EReqInit -> x ∈ q).
+    { intros x. rewrite Hhd. intros [->|?]%elem_of_cons; done. }
+    assert (HDc : get_link s' 0 c = get_link s 0 c ++ (ESpawn <$> get_ents s 0) ++ [EFinInit]).
+    { rewrite HL. rewrite decide_False by (intros [= ? ?]; simplify_eq). by rewrite decide_True. }
+    assert (HDo : forall c', c' <> c -> get_link s' 0 c' = get_link s 0 c').
+    { intros c' Hne. rewrite HL. rewrite decide_False by (intros [= ? ?]; simplify_eq).
+      rewrite decide_False; [done|]. intros [= ->]. done. }
+    assert (HUc : get_link s' c 0 = q) by (rewrite HL; by rewrite decide_True).
+    assert (HUo : forall c', c' <> c -> get_link s' c' 0 = get_link s c' 0).
+    { intros c' Hne. rewrite HL. rewrite decide_False by (intros [= ->]; done).
+      rewrite decide_False; [done|]. intros [= -> ?]. done. }
+    assert (Hcm_c : forall w, cm s' c w =
+              negb (tb s c w) && (cm s c w || bool_decide (w ∈ get_ents s 0))).
+    { intros w. rewrite <- after_msgs_snapshot. apply cm_app; [apply HT|apply HE|done]. }
+    assert (Hcm_o : forall c' w, c' <> c -> cm s' c' w = cm s c' w).
+    { intros c' w Hne. apply cm_same; [apply HT|apply HE|by apply HDo]. }
     constructor.
     + intros c' w Hc' Hs' Hw. rewrite Hc in Hc'. rewrite HE in Hw.
-      pose proof (conn_ne0 _ _ Hinv Hc') as Hne0. rewrite Hcm, HU by done.
-      destruct (decide (c' = c)) as [->|Hne]; dsimp.
-      * left. rewrite (bool_decide_eq_true_2 _ Hw). apply orb_true_r.
-      * rewrite Hs in Hs'. apply elem_of_cons in Hs' as [->|Hs']; [done|]. by apply (c_A _ Hcinv).
-    + intros c' w Hc' Hde. rewrite Hc in Hc'.
-      pose proof (conn_ne0 _ _ Hinv Hc') as Hne0. rewrite HU in Hde by done. rewrite Hcm, HE.
-      destruct (decide (c' = c)) as [->|Hne]; dsimp.
-      * destruct (c_B1 _ Hcinv _ _ Hc' (Hq _ Hde)) as [Hf Hpd]. specialize (Hpd Hpc). split.
-        -- rewrite Hf. simpl. by apply bool_decide_eq_false_2.
-        -- rewrite (pending_after_pop s s' c _ _ Hinv Hhd); [done|]. rewrite HU by done.
-           by rewrite decide_True.
-      * destruct (c_B1 _ Hcinv _ _ Hc' Hde) as [Hf Hpd]. split; [done|].
-        unfold pending. rewrite HU by done. by rewrite decide_False.
-    + intros c' w Hc' Ht. rewrite Hc in Hc'.
-      pose proof (conn_ne0 _ _ Hinv Hc') as Hne0. rewrite Hcm in Ht. rewrite HE, HU by done.
-      destruct (decide (c' = c)) as [->|Hne]; dsimp.
-      * apply orb_true_iff in Ht as [Ht|Ht]; [|left; by apply bool_decide_eq_true in Ht].
-        destruct (c_B2 _ Hcinv _ _ Hc' Ht) as [?|Hsw]; [by left|].
-        rewrite Hhd in Hsw. apply elem_of_cons in Hsw as [[=]|?]. by right.
-      * by apply (c_B2 _ Hcinv).
+      destruct (decide (c' = c)) as [->|Hne].
+      * rewrite Hcm_c, HUc. destruct (decide (w ∈ get_tomb s c)) as [Htw|Htw].
+        -- right. apply Hq; [|done]. by apply (c_T _ Hcinv).
+        -- left. unfold tb. rewrite (bool_decide_eq_false_2 _ Htw).
+           rewrite (bool_decide_eq_true_2 _ Hw). simpl. apply orb_true_r.
+      * rewrite Hs in Hs'. apply elem_of_cons in Hs' as [->|Hs']; [done|].
+        rewrite Hcm_o, HUo by done. by apply (c_A _ Hcinv).
+    + intros c' w Hc' Ht. rewrite Hc in Hc'. rewrite HE.
+      destruct (decide (c' = c)) as [->|Hne].
+      * rewrite Hcm_c in Ht. rewrite HUc. apply andb_true_iff in Ht as [_ Ht].
+        apply orb_true_iff in Ht as [Ht|Ht]; [|left; by apply bool_decide_eq_true in Ht].
+        destruct (c_B _ Hcinv _ _ Hc' Ht) as [?|Hsw]; [by left|right]. by apply Hq.
+      * rewrite Hcm_o in Ht by done. rewrite HUo by done. by apply (c_B _ Hcinv).
+    + intros c' w Hc' Hw Hin. rewrite Hc in Hc'. rewrite HT in Hw. rewrite HE in Hin.
+      pose proof (c_T _ Hcinv _ _ Hc' Hw Hin) as Hde.
+      destruct (decide (c' = c)) as [->|Hne]; [|by rewrite HUo].
+      rewrite HUc. by apply Hq.
   - (* host receives EFinInit from c *)
-    assert (Hq : forall m, m ∈ q -> m ∈ get_link s c 0) by (rewrite Hhd; set_solver).
+    assert (Hq : forall x, x ∈ get_link s c 0 -> x <> EFinInit -> x ∈ q).
+    { intros x. rewrite Hhd. intros [->|?]%elem_of_cons; done. }
     assert (HD : forall c', get_link s' 0 c' = get_link s 0 c').
-    { intros c'. rewrite HL. rewrite decide_False; [done|]. intros [= <- ?]. done. }
-    assert (HU : forall c', get_link s' c' 0 = if decide (c' = c) then q else get_link s c' 0).
-    { intros c'. rewrite HL. destruct (decide (c' = c)) as [->|Hne]; dsimp.
-      - by rewrite ?decide_True.
-      - rewrite decide_False; [done|]. intros [= ?]. done. }
+    { intros c'. rewrite HL. rewrite decide_False; [done|]. intros [= ? ?]. simplify_eq. }
+    assert (HUc : get_link s' c 0 = q) by (rewrite HL; by rewrite decide_True).
+    assert (HUo : forall c', c' <> c -> get_link s' c' 0 = get_link s c' 0).
+    { intros c' Hne. rewrite HL. rewrite decide_False; [done|]. intros [= ->]. done. }
     assert (Hcm : forall c' w, cm s' c' w = cm s c' w).
-    { intros c' w. apply cm_same; [apply HE|apply HD]. }
+    { intros c' w. apply cm_same; [apply HT|apply HE|apply HD]. }
     constructor.
     + intros c' w Hc' Hs' Hw. rewrite Hc in Hc'. rewrite Hs in Hs'. rewrite HE in Hw.
-      rewrite Hcm, HU. destruct (c_A _ Hcinv _ _ Hc' Hs' Hw) as [?|Hde]; [by left|right].
-      destruct (decide (c' = c)) as [->|Hne]; [|done].
-      rewrite Hhd in Hde. apply elem_of_cons in Hde as [[=]|?]. done.
-    + intros c' w Hc' Hde. rewrite Hc in Hc'. rewrite HU in Hde. rewrite Hcm, HE.
-      destruct (decide (c' = c)) as [->|Hne]; dsimp.
-      * destruct (c_B1 _ Hcinv _ _ Hc' (Hq _ Hde)) as [Hf Hpd]. split; [done|].
-        rewrite (pending_after_pop s s' c _ _ Hinv Hhd); [done|]. rewrite HU.
-        by rewrite decide_True.
-      * destruct (c_B1 _ Hcinv _ _ Hc' Hde) as [Hf Hpd]. split; [done|].
-        unfold pending. rewrite HU. by rewrite decide_False.
-    + intros c' w Hc' Ht. rewrite Hc in Hc'. rewrite Hcm in Ht. rewrite HE, HU.
-      destruct (c_B2 _ Hcinv _ _ Hc' Ht) as [?|Hsw]; [by left|right].
-      destruct (decide (c' = c)) as [->|Hne]; [|done].
-      rewrite Hhd in Hsw. apply elem_of_cons in Hsw as [[=]|?]. done.
+      rewrite Hcm. destruct (c_A _ Hcinv _ _ Hc' Hs' Hw) as [?|Hde]; [by left|right].
+      destruct (decide (c' = c)) as [->|Hne]; [|by rewrite HUo].
+      rewrite HUc. by apply Hq.
+    + intros c' w Hc' Ht. rewrite Hc in Hc'. rewrite Hcm in Ht. rewrite HE.
+      destruct (c_B _ Hcinv _ _ Hc' Ht) as [?|Hsw]; [by left|right].
+      destruct (decide (c' = c)) as [->|Hne]; [|by rewrite HUo].
+      rewrite HUc. by apply Hq.
+    + intros c' w Hc' Hw Hin. rewrite Hc in Hc'. rewrite HT in Hw. rewrite HE in Hin.
+      pose proof (c_T _ Hcinv _ _ Hc' Hw Hin) as Hde.
+      destruct (decide (c' = c)) as [->|Hne]; [|by rewrite HUo].
+      rewrite HUc. by apply Hq.
 Qed.
 
 Lemma cinv_step_deliver_client s s' c :
-  sinv s -> cinv s -> step s (EvDeliver 0 c) = Some s' -> cinv s'.
+  sinv s -> tinv s -> cinv s -> step s (EvDeliver 0 c) = Some s' -> cinv s'.
 Proof.
-  intros Hinv Hcinv Hstep. pose proof (s_host _ Hinv) as H0.
+  intros Hinv Htinv Hcinv Hstep. pose proof (s_host _ Hinv) as H0.
   pose proof (s_nd_ents _ Hinv) as Hnd.
   assert (A : astep s s' (EvDeliver 0 c)) by (apply step_astep; [apply Hinv|done]).
-  inversion A as [| |c1 u q Hc0 Hhd HE HL (Hc & Hs & Hu)
-                    |c1 u q Hc0 Hhd HE HL (Hc & Hs & Hu)
-                    |c1 q Hc0 Hhd HE HL Hc Hs Hu
-                    |c1 q Hc0 Hhd HE HL (Hc & Hs & Hu)
-                    |c1 m q Hc0 Hhd HE HL (Hc & Hs & Hu)| |]; subst; clear A; try done.
-  - (* client c handles m *)
-    assert (HH : get_ents s' 0 = get_ents s 0).
-    { rewrite HE. by rewrite decide_False. }
-    assert (HU : forall c', c' <> 0 -> get_link s' c' 0 = get_link s c' 0).
-    { intros c' Hc'. rewrite HL. rewrite decide_False; [done|]. intros [= ? ?]. done. }
-    assert (Hcm : forall c' w, cm s' c' w = cm s c' w).
-    { intros c' w. destruct (decide (c' = c)) as [->|Hne]; dsimp.
-      - eapply cm_pop; [apply Hnd|apply Hhd| |].
-        + rewrite HL. by rewrite ?decide_True.
-        + rewrite HE. by rewrite ?decide_True.
-      - apply cm_same.
-        + rewrite HE. by rewrite decide_False.
-        + rewrite HL. rewrite decide_False; [done|]. intros [= ?]. done. }
-    constructor.
-    + intros c' w Hc' Hs' Hw. rewrite Hc in Hc'. rewrite Hs in Hs'. rewrite HH in Hw.
-      pose proof (conn_ne0 _ _ Hinv Hc') as Hne0. rewrite Hcm, HU by done. by apply (c_A _ Hcinv).
-    + intros c' w Hc' Hde. rewrite Hc in Hc'.
-      pose proof (conn_ne0 _ _ Hinv Hc') as Hne0. rewrite HU in Hde by done. rewrite Hcm, HH.
-      unfold pending. rewrite HU by done. by apply (c_B1 _ Hcinv).
-    + intros c' w Hc' Ht. rewrite Hc in Hc'.
-      pose proof (conn_ne0 _ _ Hinv Hc') as Hne0. rewrite Hcm in Ht. rewrite HH, HU by done.
-      by apply (c_B2 _ Hcinv).
+  inversion A as [| |c1 u q Hc0 Hhd HE HL (Hc & Hs & Hu) HT
+                    |c1 u q Hc0 Hhd HE HL (Hc & Hs & Hu) HT
+                    |c1 q Hc0 Hhd HE HL Hc Hs Hu HT
+                    |c1 q Hc0 Hhd HE HL (Hc & Hs & Hu) HT
+                    |c1 m q Hc0 Hhd HE HL (Hc & Hs & Hu) HT| |]; subst; clear A; try done.
+  (* client c handles m *)
+  assert (HH : get_ents s' 0 = get_ents s 0).
+  { rewrite HE. by rewrite decide_False. }
+  assert (HU : forall c', get_link s' c' 0 = get_link s c' 0).
+  { intros c'. rewrite HL. rewrite decide_False; [done|]. intros [= ? ?]. simplify_eq. }
+  assert (Hcm : forall c' w, cm s' c' w = cm s c' w).
+  { intros c' w. destruct (decide (c' = c)) as [->|Hne].
+    - eapply cm_pop; [apply Hnd|apply Hhd| | |apply HT].
+      + rewrite HL. by rewrite decide_True.
+      + rewrite HE. by rewrite decide_True.
+    - apply cm_same; [apply HT| |].
+      + rewrite HE. by rewrite decide_False.
+      + rewrite HL. rewrite decide_False; [done|]. intros [= ?]. done. }
+  constructor.
+  - intros c' w Hc' Hs' Hw. rewrite Hc in Hc'. rewrite Hs in Hs'. rewrite HH in Hw.
+    rewrite Hcm, HU. by apply (c_A _ Hcinv).
+  - intros c' w Hc' Ht. rewrite Hc in Hc'. rewrite Hcm in Ht. rewrite HH, HU.
+    by apply (c_B _ Hcinv).
+  - intros c' w Hc' Hw Hin. rewrite Hc in Hc'. rewrite HT in Hw. rewrite HH in Hin. rewrite HU.
+    by apply (c_T _ Hcinv).
 Qed.
 
 Lemma cinv_step_connect s s' c :
-  sinv s -> cinv s -> bad_S11 s (EvConnect c) = false ->
+  sinv s -> tinv s -> cinv s -> bad_S11 s (EvConnect c) = false ->
   step s (EvConnect c) = Some s' -> cinv s'.
 Proof.
-  intros Hinv Hcinv Hbad Hstep. pose proof (s_host _ Hinv) as H0.
+  intros Hinv Htinv Hcinv Hbad Hstep. pose proof (s_host _ Hinv) as H0.
   assert (A : astep s s' (EvConnect c)) by (apply step_astep; [apply Hinv|done]).
-  inversion A as [| | | | | | |c1 Hc0 Hnc HE HL Hc Hs Hu|]; subst c1; clear A.
+  inversion A as [| | | | | | |c1 Hc0 Hnc HE HL Hc Hs Hu HT|]; subst c1; clear A.
   assert (Hec : get_ents s c = []).
   { simpl in Hbad. by destruct (get_ents s c). }
   assert (Hdc : get_link s 0 c = []).
   { destruct (get_link s 0 c) eqn:Heq; [done|]. exfalso. apply Hnc.
     apply link_nonempty_conn_down; [done|done|]. by rewrite Heq. }
-  assert (Huc : get_link s c 0 = []).
-  { destruct (get_link s c 0) eqn:Heq; [done|]. exfalso. apply Hnc.
-    apply link_nonempty_conn; [done|done|]. by rewrite Heq. }
   assert (HD : forall c', get_link s' 0 c' = get_link s 0 c').
-  { intros c'. rewrite HL. rewrite decide_False; [done|]. intros [= <- ?]. done. }
-  assert (HU : forall c', get_link s' c' 0 =
-            if decide (c' = c) then [EReqInit] else get_link s c' 0).
-  { intros c'. rewrite HL. destruct (decide (c' = c)) as [->|Hne].
-    - rewrite decide_True by done. by rewrite Huc.
-    - rewrite decide_False; [done|]. intros [= ?]. done. }
-  assert (Hcm : forall c' w, cm s' c' w = cm s c' w).
-  { intros c' w. apply cm_same; [apply HE|apply HD]. }
-  assert (Hcmc : forall w, cm s c w = false).
-  { intros w. unfold cm. rewrite Hec, Hdc. reflexivity. }
+  { intros c'. rewrite HL. rewrite decide_False; [done|]. intros [= ? ?]. simplify_eq. }
+  assert (HUo : forall c', c' <> c -> get_link s' c' 0 = get_link s c' 0).
+  { intros c' Hne. rewrite HL. rewrite decide_False; [done|]. intros [= ?]. done. }
+  assert (HTc : get_tomb s' c = []) by (rewrite HT; by rewrite decide_True).
+  assert (HTo : forall c', c' <> c -> get_tomb s' c' = get_tomb s c').
+  { intros c' Hne. rewrite HT. by rewrite decide_False. }
+  assert (Hcm_o : forall c' w, c' <> c -> cm s' c' w = cm s c' w).
+  { intros c' w Hne. apply cm_same; [by apply HTo|apply HE|apply HD]. }
+  assert (Hcm_c : forall w, cm s' c w = false).
+  { intros w. unfold cm, tb. rewrite HTc, HE, Hec, HD, Hdc.
+    rewrite bool_decide_eq_false_2 by (by intros ?%elem_of_nil). done. }
   constructor.
   - intros c' w Hc' Hs' Hw. rewrite Hs in Hs'. rewrite HE in Hw.
     pose proof (s_sub _ Hinv _ Hs') as Hc''.
     assert (Hne : c' <> c) by (intros ->; done).
-    rewrite Hcm, HU. rewrite ?decide_False by done. by apply (c_A _ Hcinv).
-  - intros c' w Hc' Hde. rewrite Hc in Hc'. rewrite HU in Hde. rewrite Hcm, HE.
+    rewrite Hcm_o, HUo by done. by apply (c_A _ Hcinv).
+  - intros c' w Hc' Ht. rewrite Hc in Hc'. rewrite HE.
+    destruct (decide (c' = c)) as [->|Hne]; [by rewrite Hcm_c in Ht|].
+    apply elem_of_cons in Hc' as [->|Hc']; [done|].
+    rewrite Hcm_o in Ht by done. rewrite HUo by done. by apply (c_B _ Hcinv).
+  - intros c' w Hc' Hw Hin. rewrite Hc in Hc'. rewrite HE in Hin.
     destruct (decide (c' = c)) as [->|Hne].
-    + rewrite ?decide_True in Hde by done. apply elem_of_list_singleton in Hde. done.
-    + rewrite ?decide_False in Hde by done. apply elem_of_cons in Hc' as [->|Hc']; [done|].
-      unfold pending. rewrite HU. rewrite ?decide_False by done. by apply (c_B1 _ Hcinv).
-  - intros c' w Hc' Ht. rewrite Hc in Hc'. rewrite Hcm in Ht. rewrite HE, HU.
-    destruct (decide (c' = c)) as [->|Hne].
-    + by rewrite Hcmc in Ht.
-    + rewrite ?decide_False by done. apply elem_of_cons in Hc' as [->|Hc']; [done|].
-      by apply (c_B2 _ Hcinv).
+    + rewrite HTc in Hw. by apply elem_of_nil in Hw.
+    + apply elem_of_cons in Hc' as [->|Hc']; [done|].
+      rewrite HTo in Hw by done. rewrite HUo by done. by apply (c_T _ Hcinv).
 Qed.
 
 Lemma cinv_step_leave s s' c :
-  sinv s -> cinv s -> step s (EvLeave c) = Some s' -> cinv s'.
+  sinv s -> tinv s -> cinv s -> step s (EvLeave c) = Some s' -> cinv s'.
 Proof.
-  intros Hinv Hcinv Hstep. pose proof (s_host _ Hinv) as H0.
+  intros Hinv Htinv Hcinv Hstep. pose proof (s_host _ Hinv) as H0.
   assert (A : astep s s' (EvLeave c)) by (apply step_astep; [apply Hinv|done]).
-  inversion A as [| | | | | | | |c1 Hcc HE HL Hc Hs Hu]; subst c1; clear A.
+  inversion A as [| | | | | | | |c1 Hcc HE HL Hc Hs Hu HT]; subst c1; clear A.
   pose proof (conn_ne0 _ _ Hinv Hcc) as Hc0.
   assert (HD : forall c', c' <> c -> get_link s' 0 c' = get_link s 0 c').
   { intros c' Hne. rewrite HL. rewrite decide_False; [done|]. intros [[= ?]|[= ? ?]]; done. }
   assert (HU : forall c', c' <> c -> get_link s' c' 0 = get_link s c' 0).
   { intros c' Hne. rewrite HL. rewrite decide_False; [done|]. intros [[= ? ?]|[= ?]]; done. }
   assert (Hcm : forall c' w, c' <> c -> cm s' c' w = cm s c' w).
-  { intros c' w Hne. apply cm_same; [apply HE|by apply HD]. }
+  { intros c' w Hne. apply cm_same; [apply HT|apply HE|by apply HD]. }
   constructor.
   - intros c' w Hc' Hs' Hw. rewrite Hc in Hc'. rewrite Hs in Hs'. rewrite HE in Hw.
     apply elem_of_list_filter in Hc' as [Hne Hc']. apply elem_of_list_filter in Hs' as [_ Hs'].
     rewrite Hcm, HU by done. by apply (c_A _ Hcinv).
-  - intros c' w Hc' Hde. rewrite Hc in Hc'.
-    apply elem_of_list_filter in Hc' as [Hne Hc']. rewrite HU in Hde by done.
-    rewrite Hcm, HE by done. unfold pending. rewrite HU by done. by apply (c_B1 _ Hcinv).
   - intros c' w Hc' Ht. rewrite Hc in Hc'.
     apply elem_of_list_filter in Hc' as [Hne Hc']. rewrite Hcm in Ht by done.
-    rewrite HE, HU by done. by apply (c_B2 _ Hcinv).
+    rewrite HE, HU by done. by apply (c_B _ Hcinv).
+  - intros c' w Hc' Hw Hin. rewrite Hc in Hc'.
+    apply elem_of_list_filter in Hc' as [Hne Hc']. rewrite HT in Hw. rewrite HE in Hin.
+    rewrite HU by done. by apply (c_T _ Hcinv).
 Qed.
 
 Lemma cinv_step s e s' :
-  sinv s -> cinv s -> bad_S11 s e = false -> bad_S18 s e = false ->
-  step s e = Some s' -> cinv s'.
+  sinv s -> tinv s -> cinv s -> bad_S11 s e = false -> step s e = Some s' -> cinv s'.
 Proof.
-  intros Hinv Hcinv H11 H18 Hstep. destruct e as [p u|p u|a b|c|c].
+  intros Hinv Htinv Hcinv H11 Hstep. destruct e as [p u|p u|a b|c|c].
   - by eapply cinv_step_spawn.
   - by eapply cinv_step_despawn.
   - destruct (decide (b = 0)) as [->|Hb].
@@ -1713,41 +1975,45 @@ Lemma scan_cons_false bad s e tr s1 :
 Proof. simpl. intros Hsc Hst. rewrite Hst in Hsc. by apply orb_false_iff in Hsc. Qed.
 
 Lemma cinv_run s tr s' :
-  sinv s -> cinv s -> scan bad_S11 s tr = false -> scan bad_S18 s tr = false ->
-  run s tr = Some s' -> cinv s'.
+  sinv s -> tinv s -> cinv s -> scan bad_S11 s tr = false -> run s tr = Some s' -> cinv s'.
 Proof.
-  revert s. induction tr as [|e tr IH]; intros s Hinv Hcinv H11 H18; simpl.
+  revert s. induction tr as [|e tr IH]; intros s Hinv Htinv Hcinv H11; simpl.
   - by intros [= <-].
   - destruct (step s e) as [s1|] eqn:Hstep; [|done]. intros Hrun.
     destruct (scan_cons_false _ _ _ _ _ H11 Hstep) as [Hb11 Hs11].
-    destruct (scan_cons_false _ _ _ _ _ H18 Hstep) as [Hb18 Hs18].
     apply (IH s1); try done.
     + by eapply sinv_step.
+    + by eapply tinv_step.
     + by eapply cinv_step.
 Qed.
 
-Lemma cm_quiescent s c u : quiescent s -> cm s c u = bool_decide (u ∈ get_ents s c).
+Lemma cm_quiescent s c u :
+  quiescent s -> cm s c u = negb (tb s c u) && bool_decide (u ∈ get_ents s c).
 Proof. intros Hq. unfold cm. by rewrite Hq. Qed.
 
-Lemma cinv_quiescent_agree s : sinv s -> cinv s -> quiescent s -> agree s.
+Lemma cinv_quiescent_agree s : sinv s -> tinv s -> cinv s -> quiescent s -> agree s.
 Proof.
-  intros Hinv Hcinv Hq. split; [apply (s_nd_ents _ Hinv)|].
+  intros Hinv Htinv Hcinv Hq. split; [apply (s_nd_ents _ Hinv)|].
   intros c Hc Hs. split; [apply (s_nd_ents _ Hinv)|]. intros u. split.
   - intros Hin. assert (Ht : cm s c u = true).
-    { rewrite cm_quiescent by done. by apply bool_decide_eq_true_2. }
-    destruct (c_B2 _ Hcinv _ _ Hc Ht) as [?|Hsp]; [done|]. rewrite Hq in Hsp. by apply elem_of_nil in Hsp.
+    { rewrite cm_quiescent by done. rewrite (bool_decide_eq_true_2 _ Hin).
+      unfold tb. rewrite bool_decide_eq_false_2; [done|].
+      intros Htb. by apply (t_ents _ Htinv c u). }
+    destruct (c_B _ Hcinv _ _ Hc Ht) as [?|Hsp]; [done|]. rewrite Hq in Hsp. by apply elem_of_nil in Hsp.
   - intros Hin. destruct (c_A _ Hcinv _ _ Hc Hs Hin) as [Ht|Hde].
-    + rewrite cm_quiescent in Ht by done. by apply bool_decide_eq_true in Ht.
+    + rewrite cm_quiescent in Ht by done. apply andb_true_iff in Ht as [_ Ht].
+      by apply bool_decide_eq_true in Ht.
     + rewrite Hq in Hde. by apply elem_of_nil in Hde.
 Qed.
 
-(* C01, agreement part: outside the two known classes, at quiescence every connected and synced
-   client holds exactly the host's set, and nobody holds a uuid twice. *)
+(* C01, agreement part: outside the one remaining known class (S11), at quiescence every connected
+   and synced client holds exactly the host's set, and nobody holds a uuid twice. *)
 Theorem C01_agreement tr s :
-  run init tr = Some s -> known_S11 tr = false -> known_S18 tr = false -> quiescent s -> agree s.
+  run init tr = Some s -> known_S11 tr = false -> quiescent s -> agree s.
 Proof.
-  intros Hrun H11 H18 Hq. apply cinv_quiescent_agree; [by eapply sinv_reachable| |done].
-  eapply cinv_run; [apply sinv_init|apply cinv_init|apply H11|apply H18|done].
+  intros Hrun H11 Hq.
+  apply cinv_quiescent_agree; [by eapply sinv_reachable|by eapply tinv_reachable| |done].
+  eapply cinv_run; [apply sinv_init|apply tinv_init|apply cinv_init|apply H11|done].
 Qed.
 Print Assumptions C01_agreement.
 
@@ -2051,19 +2317,20 @@ Qed.
 
 Definition C01_statement : Prop :=
   forall tr s, run init tr = Some s ->
-    known_S11 tr = false -> known_S18 tr = false -> quiescent s ->
+    known_S11 tr = false -> quiescent s ->
     agree s /\
     (forall u, u ∉ dropped_uuids tr -> (u ∈ get_ents s 0 <-> u ∈ spec_alive tr)) /\
     (forall c u, c ∈ conn s -> c ∈ synced s -> u ∉ dropped_uuids tr ->
                  (u ∈ get_ents s c <-> u ∈ spec_alive tr)).
 
 (* PROPERTY C01 (entity slice), for any number of clients, every interleaving, joins and departures
-   at any point: outside the two known defect classes, a quiescent state is an agreeing state, and
-   what everybody holds is what the trace says is alive. *)
+   at any point: outside the one remaining known defect class (S11; S18 is repaired by the
+   tombstones), a quiescent state is an agreeing state, and what everybody holds is what the trace
+   says is alive. *)
 Theorem C01_entities_converge : C01_statement.
 Proof.
-  intros tr s Hrun H11 H18 Hq.
-  pose proof (C01_agreement _ _ Hrun H11 H18 Hq) as Hag.
+  intros tr s Hrun H11 Hq.
+  pose proof (C01_agreement _ _ Hrun H11 Hq) as Hag.
   pose proof (C01_host_matches_spec _ _ Hrun Hq) as Hspec.
   split; [done|]. split; [done|]. intros c u Hc Hs Hdr.
   destruct Hag as [_ Hag]. destruct (Hag c Hc Hs) as [_ Hsame]. rewrite Hsame. by apply Hspec.
@@ -2107,14 +2374,14 @@ Proof.
 Qed.
 
 Corollary C01_entities_converge_no_leave tr s :
-  run init tr = Some s -> (forall c, EvLeave c ∉ tr) -> known_S18 tr = false -> quiescent s ->
+  run init tr = Some s -> (forall c, EvLeave c ∉ tr) -> quiescent s ->
   agree s /\ forall u, u ∈ get_ents s 0 <-> u ∈ spec_alive tr.
 Proof.
-  intros Hrun Hno H18 Hq.
+  intros Hrun Hno Hq.
   assert (Hdr : dropped_uuids tr = []) by (by apply collect_dropped_no_leave).
   assert (H11 : known_S11 tr = false).
   { eapply no_leave_no_S11; [apply sinv_init| |done|done]. intros c _ _. apply get_ents_init. }
-  destruct (C01_entities_converge _ _ Hrun H11 H18 Hq) as (Hag & Hspec & _).
+  destruct (C01_entities_converge _ _ Hrun H11 Hq) as (Hag & Hspec & _).
   split; [done|]. intros u. apply Hspec. rewrite Hdr. apply not_elem_of_nil.
 Qed.
 
@@ -2174,6 +2441,7 @@ Proof.
       * lia.
     + destruct (decide (a = 0)); [|done]. injection Hstep as <-.
       destruct m as [u|u| |]; simpl; try lia.
+      destruct (bool_decide (u ∈ get_tomb (set_link s a b q) b)); simpl; [lia|].
       destruct (bool_decide (u ∈ get_ents (set_link s a b q) b)); simpl; lia.
   - destruct (bool_decide (c <> 0) && bool_decide (c ∉ conn s)); [|done]. by injection Hstep as <-.
   - destruct (bool_decide (c ∈ conn s)); [|done]. injection Hstep as <-. simpl. lia.
@@ -2484,9 +2752,8 @@ Proof.
   { apply quiescentb_spec. vm_compute in Hrun. injection Hrun as <-. vm_compute. reflexivity. }
   exists s. split; [reflexivity|]. split; [exact Hq|].
   assert (H11 : known_S11 ex_trace = false) by (vm_compute; reflexivity).
-  assert (H18 : known_S18 ex_trace = false) by (vm_compute; reflexivity).
   assert (Hdr : dropped_uuids ex_trace = []) by (vm_compute; reflexivity).
-  destruct (C01_entities_converge ex_trace s Hrun H11 H18 Hq) as (Hag & Hspec & _).
+  destruct (C01_entities_converge ex_trace s Hrun H11 Hq) as (Hag & Hspec & _).
   split; [exact Hag|]. intros u. apply Hspec. rewrite Hdr. apply not_elem_of_nil.
 Qed.
 
@@ -2494,249 +2761,191 @@ Print Assumptions messages_per_operation.
 Print Assumptions relay_cost.
 Print Assumptions client_never_relays.
 Print Assumptions host_enqueues_downwards_only.
+Print Assumptions self_quenching.
+Print Assumptions quiescent_enabled_events.
 Print Assumptions traffic_bound.
 
 (* ================================================================================================
-   9. The S18 class lies inside the initial-sync window
+   9. Joiners: a connected client whose links are empty is synced, and holds the host's set
    ================================================================================================ *)
 
-Lemma snoc_split {A} (q q1 q2 : list A) (x y : A) :
-  q ++ [x] = q1 ++ y :: q2 ->
-  (exists q2', q2 = q2' ++ [x] /\ q = q1 ++ y :: q2') \/ (q2 = [] /\ q = q1 /\ x = y).
+(* a connected client has had its snapshot enqueued, or its request is still on its way *)
+Definition qinv (s : astate) : Prop :=
+  forall c, c ∈ conn s -> c ∈ synced s \/ EReqInit ∈ get_link s c 0.
+
+Lemma qinv_init : qinv init.
+Proof. intros c Hc. by apply elem_of_nil in Hc. Qed.
+
+Lemma qinv_step s e s' : sinv s -> qinv s -> step s e = Some s' -> qinv s'.
 Proof.
-  revert q. induction q1 as [|z q1 IH]; intros q Heq; simpl in *.
-  - destruct q as [|a q]; simpl in *.
-    + injection Heq as -> <-. right. done.
-    + injection Heq as -> <-. left. by exists q.
-  - destruct q as [|a q]; simpl in *.
-    + injection Heq as _ Heq. by destruct q1.
-    + injection Heq as -> Heq. destruct (IH _ Heq) as [(q2' & -> & ->)|(-> & -> & ->)].
-      * left. by exists q2'.
-      * right. done.
-Qed.
-
-Record winv (s : astate) : Prop := {
-  w1 : forall c, c ∈ synced s -> pending s c = false;
-  (* an ESpawn u queued behind c's EFinInit (or after it has been handled) is the first c hears of u *)
-  w2 : forall c u q1 q2, c ∈ synced s -> get_link s 0 c = q1 ++ ESpawn u :: q2 -> EFinInit ∉ q2 ->
-       u ∉ get_ents s c /\ ~ mentions u q1;
-}.
-
-Lemma winv_init : winv init.
-Proof. constructor; simpl; intros c; set_solver. Qed.
-
-Lemma pending_false_mono s s' c :
-  (pending s' c = true -> pending s c = true) -> pending s c = false -> pending s' c = false.
-Proof. intros Himp Hf. destruct (pending s' c); [|done]. rewrite Himp in Hf; done. Qed.
-
-Lemma winv_step s e s' : sinv s -> winv s -> step s e = Some s' -> winv s'.
-Proof.
-  intros Hinv [W1 W2] Hstep. pose proof (s_host _ Hinv) as H0. pose proof (s_sub _ Hinv) as Hsub.
-  step_cases Hinv Hstep.
+  intros Hinv Hq Hstep. pose proof (s_host _ Hinv) as H0.
+  step_cases Hinv Hstep; intros c' Hc'; rewrite ?Hc in Hc'.
   - (* spawn *)
-    assert (Hnm : forall a b, ~ mentions u (get_link s a b)).
-    { intros a b Hm. apply Hfresh. eapply s_used_l; eauto. }
-    assert (Hne : forall p', u ∉ get_ents s p').
-    { intros p' Hm. apply Hfresh. eapply s_used_e; eauto. }
-    constructor.
-    + intros c Hcs. rewrite Hs in Hcs. apply (pending_false_mono s); [|by apply W1].
-      destruct (decide (p = 0)) as [->|Hp].
-      * unfold pending. rewrite HL. rewrite decide_True by done. rewrite decide_False; [done|].
-        intros [-> Hin]. done.
-      * destruct (decide (c = p)) as [->|Hcp].
-        -- apply (pending_snoc s s' p (ESpawn u)); [done|]. rewrite HL.
-           rewrite decide_False by done. by rewrite decide_True.
-        -- unfold pending. rewrite HL. rewrite decide_False by done. rewrite decide_False; [done|].
-           intros [= ->]. done.
-    + intros c w q1 q2 Hcs Hsplit Hfin. rewrite Hs in Hcs.
-      pose proof (Hsub _ Hcs) as Hcc. pose proof (conn_ne0 _ _ Hinv Hcc) as Hc0.
-      rewrite HL in Hsplit. destruct (decide (p = 0)) as [->|Hp].
-      * rewrite decide_True in Hsplit by done. rewrite decide_True in Hsplit by done.
-        rewrite HE. rewrite decide_False by done.
-        apply snoc_split in Hsplit as [(q2' & -> & Hold)|(-> & <- & [= <-])].
-        -- apply (W2 c w q1 q2' Hcs Hold). intros Hin. apply Hfin. apply elem_of_app. by left.
-        -- split; [apply Hne|apply Hnm].
-      * rewrite decide_False in Hsplit by done. rewrite decide_False in Hsplit by (intros [= ->]; done).
-        destruct (W2 c w q1 q2 Hcs Hsplit Hfin) as [Hn Hm]. split; [|done].
-        rewrite HE. case_decide as Hd; [|done]. subst c.
-        intros [->|Hin]%elem_of_cons; [|done]. apply (Hnm 0 p). left. rewrite Hsplit.
-        apply elem_of_app. right. apply elem_of_list_here.
+    rewrite Hs. destruct (Hq c' Hc') as [?|Hr]; [by left|right].
+    rewrite (op_links_up _ _ _ _ HL H0). destruct (decide _); [|done]. apply elem_of_app. by left.
   - (* despawn *)
-    constructor.
-    + intros c Hcs. rewrite Hs in Hcs. apply (pending_false_mono s); [|by apply W1].
-      destruct (decide (p = 0)) as [->|Hp].
-      * unfold pending. rewrite HL. rewrite decide_True by done. rewrite decide_False; [done|].
-        intros [-> Hin']. done.
-      * destruct (decide (c = p)) as [->|Hcp].
-        -- apply (pending_snoc s s' p (EDelete u)); [done|]. rewrite HL.
-           rewrite decide_False by done. by rewrite decide_True.
-        -- unfold pending. rewrite HL. rewrite decide_False by done. rewrite decide_False; [done|].
-           intros [= ->]. done.
-    + intros c w q1 q2 Hcs Hsplit Hfin. rewrite Hs in Hcs.
-      pose proof (Hsub _ Hcs) as Hcc. pose proof (conn_ne0 _ _ Hinv Hcc) as Hc0.
-      rewrite HL in Hsplit. destruct (decide (p = 0)) as [->|Hp].
-      * rewrite decide_True in Hsplit by done. rewrite decide_True in Hsplit by done.
-        rewrite HE. rewrite decide_False by done.
-        apply snoc_split in Hsplit as [(q2' & -> & Hold)|(-> & <- & [=])].
-        apply (W2 c w q1 q2' Hcs Hold). intros Hin'. apply Hfin. apply elem_of_app. by left.
-      * rewrite decide_False in Hsplit by done. rewrite decide_False in Hsplit by (intros [= ->]; done).
-        destruct (W2 c w q1 q2 Hcs Hsplit Hfin) as [Hn Hm]. split; [|done].
-        rewrite HE. case_decide as Hd; [|done]. subst c. intros ?%remove1_subseteq. done.
-  - (* host receives ESpawn u from c *)
-    assert (Hsp : ESpawn u ∈ get_link s c 0) by (rewrite Hhd; apply elem_of_list_here).
-    destruct (s_pa _ Hinv _ _ Hsp) as (Q1 & Q2 & Q3 & Q4).
-    constructor.
-    + intros c' Hcs. rewrite Hs in Hcs. destruct (decide (c' = c)) as [->|Hne].
-      * apply (pending_after_pop s s' c _ _ Hinv Hhd). rewrite HL. rewrite ?decide_True by done. done.
-      * apply (pending_false_mono s); [|by apply W1]. unfold pending. rewrite HL.
-        rewrite decide_False by (intros [= ->]; done). rewrite decide_False; [done|].
-        intros [-> _]. by apply (conn_ne0 _ _ Hinv (Hsub _ Hcs)).
-    + intros c' w q1 q2 Hcs Hsplit Hfin. rewrite Hs in Hcs.
-      pose proof (Hsub _ Hcs) as Hcc. pose proof (conn_ne0 _ _ Hinv Hcc) as Hc0'.
-      rewrite HE. rewrite decide_False by done.
-      rewrite HL in Hsplit. rewrite decide_False in Hsplit by (intros [= ? ?]; simplify_eq).
-      destruct (decide (c' = c)) as [->|Hne].
-      * rewrite decide_False in Hsplit by tauto. by apply (W2 c w q1 q2).
-      * rewrite decide_True in Hsplit by done.
-        apply snoc_split in Hsplit as [(q2' & -> & Hold)|(-> & <- & [= <-])].
-        -- apply (W2 c' w q1 q2' Hcs Hold). intros Hin. apply Hfin. apply elem_of_app. by left.
-        -- split; [by destruct (Q3 c' Hne)|apply Q2].
-  - (* host receives EDelete u from c *)
-    constructor.
-    + intros c' Hcs. rewrite Hs in Hcs. destruct (decide (c' = c)) as [->|Hne].
-      * apply (pending_after_pop s s' c _ _ Hinv Hhd). rewrite HL. rewrite ?decide_True by done. done.
-      * apply (pending_false_mono s); [|by apply W1]. unfold pending. rewrite HL.
-        rewrite decide_False by (intros [= ->]; done). rewrite decide_False; [done|].
-        intros [-> _]. by apply (conn_ne0 _ _ Hinv (Hsub _ Hcs)).
-    + intros c' w q1 q2 Hcs Hsplit Hfin. rewrite Hs in Hcs.
-      pose proof (Hsub _ Hcs) as Hcc. pose proof (conn_ne0 _ _ Hinv Hcc) as Hc0'.
-      rewrite HE. rewrite decide_False by done.
-      rewrite HL in Hsplit. rewrite decide_False in Hsplit by (intros [= ? ?]; simplify_eq).
-      destruct (decide (c' = c)) as [->|Hne].
-      * rewrite decide_False in Hsplit by tauto. by apply (W2 c w q1 q2).
-      * rewrite decide_True in Hsplit by done.
-        apply snoc_split in Hsplit as [(q2' & -> & Hold)|(-> & <- & [=])].
-        apply (W2 c' w q1 q2' Hcs Hold). intros Hin. apply Hfin. apply elem_of_app. by left.
-  - (* host receives EReqInit from c *)
-    constructor.
-    + intros c' Hcs. rewrite Hs in Hcs. destruct (decide (c' = c)) as [->|Hne].
-      * apply (pending_after_pop s s' c _ _ Hinv Hhd). rewrite HL. rewrite ?decide_True by done. done.
-      * apply elem_of_cons in Hcs as [->|Hcs]; [done|].
-        apply (pending_false_mono s); [|by apply W1]. unfold pending. rewrite HL.
-        rewrite decide_False by (intros [= ->]; done). rewrite decide_False; [done|].
-        intros [= -> ?]. done.
-    + intros c' w q1 q2 Hcs Hsplit Hfin. rewrite Hs in Hcs. rewrite HE.
-      rewrite HL in Hsplit. destruct (decide (c' = c)) as [->|Hne].
-      * exfalso. rewrite decide_False in Hsplit by (intros [= ? ?]; simplify_eq).
-        rewrite decide_True in Hsplit by done. rewrite app_assoc in Hsplit.
-        apply snoc_split in Hsplit as [(q2' & -> & _)|(_ & _ & [=])].
-        apply Hfin. apply elem_of_app. right. apply elem_of_list_here.
-      * apply elem_of_cons in Hcs as [->|Hcs]; [done|].
-        rewrite decide_False in Hsplit by (intros [= ? ?]; simplify_eq).
-        rewrite decide_False in Hsplit by (intros [= ->]; done). by apply (W2 c' w q1 q2).
-  - (* host receives EFinInit from c *)
-    constructor.
-    + intros c' Hcs. rewrite Hs in Hcs. destruct (decide (c' = c)) as [->|Hne].
-      * apply (pending_after_pop s s' c _ _ Hinv Hhd). rewrite HL. rewrite ?decide_True by done. done.
-      * apply (pending_false_mono s); [|by apply W1]. unfold pending. rewrite HL.
-        rewrite decide_False; [done|]. intros [= ->]. done.
-    + intros c' w q1 q2 Hcs Hsplit Hfin. rewrite Hs in Hcs. rewrite HE.
-      rewrite HL in Hsplit. rewrite decide_False in Hsplit by (intros [= ? ?]; simplify_eq).
-      by apply (W2 c' w q1 q2).
-  - (* client c handles m *)
-    constructor.
-    + intros c' Hcs. rewrite Hs in Hcs. apply (pending_false_mono s); [|by apply W1].
-      unfold pending. rewrite HL. rewrite decide_False; [done|]. intros [= ? ?]. simplify_eq.
-    + intros c' w q1 q2 Hcs Hsplit Hfin. rewrite Hs in Hcs. rewrite HL in Hsplit. rewrite HE.
-      destruct (decide (c' = c)) as [->|Hne].
-      * rewrite decide_True in Hsplit by done. rewrite ?decide_True by done.
-        assert (Hold : get_link s 0 c = (m :: q1) ++ ESpawn w :: q2).
-        { rewrite Hhd, Hsplit. done. }
-        destruct (W2 c w (m :: q1) q2 Hcs Hold Hfin) as [Hn Hm]. split.
-        -- intros [?| ->]%cl_apply_elem_inv; [done|]. apply Hm. apply mentions_cons. left.
-           by apply mentions_spawn.
-        -- intros Hm'. apply Hm. apply mentions_cons. by right.
-      * rewrite decide_False in Hsplit by (intros [= ->]; done). rewrite ?decide_False by done.
-        by apply (W2 c' w q1 q2).
+    rewrite Hs. destruct (Hq c' Hc') as [?|Hr]; [by left|right].
+    rewrite (op_links_up _ _ _ _ HL H0). destruct (decide _); [|done]. apply elem_of_app. by left.
+  - (* host receives ESpawn *)
+    rewrite Hs. destruct (Hq c' Hc') as [?|Hr]; [by left|right].
+    rewrite (relay_links_up _ _ _ _ _ HL H0). destruct (decide (c' = c)) as [->|Hne]; [|done].
+    rewrite Hhd in Hr. apply elem_of_cons in Hr as [[=]|Hr]. done.
+  - (* host receives EDelete *)
+    rewrite Hs. destruct (Hq c' Hc') as [?|Hr]; [by left|right].
+    rewrite (relay_links_up _ _ _ _ _ HL H0). destruct (decide (c' = c)) as [->|Hne]; [|done].
+    rewrite Hhd in Hr. apply elem_of_cons in Hr as [[=]|Hr]. done.
+  - (* host receives EReqInit *)
+    rewrite Hs. destruct (decide (c' = c)) as [->|Hne]; [left; apply elem_of_list_here|].
+    destruct (Hq c' Hc') as [?|Hr]; [left; by apply elem_of_list_further|right].
+    rewrite HL. rewrite decide_False by (intros [= ->]; done).
+    rewrite decide_False; [done|]. intros [= -> ?]. done.
+  - (* host receives EFinInit *)
+    rewrite Hs. destruct (Hq c' Hc') as [?|Hr]; [by left|right].
+    rewrite HL. destruct (decide (c' = c)) as [->|Hne].
+    + rewrite decide_True by done. rewrite Hhd in Hr. apply elem_of_cons in Hr as [[=]|Hr]. done.
+    + rewrite decide_False by (intros [= ->]; done). done.
+  - (* client *)
+    rewrite Hs. destruct (Hq c' Hc') as [?|Hr]; [by left|right].
+    rewrite HL. rewrite decide_False; [done|]. intros [= ? ?]. simplify_eq.
   - (* connect *)
-    constructor.
-    + intros c' Hcs. rewrite Hs in Hcs. pose proof (Hsub _ Hcs) as Hcc.
-      assert (Hne : c' <> c) by (intros ->; done).
-      apply (pending_false_mono s); [|by apply W1]. unfold pending. rewrite HL.
-      rewrite decide_False; [done|]. intros [= ->]. done.
-    + intros c' w q1 q2 Hcs Hsplit Hfin. rewrite Hs in Hcs. rewrite HE. rewrite HL in Hsplit.
-      rewrite decide_False in Hsplit by (intros [= ? ?]; simplify_eq). by apply (W2 c' w q1 q2).
+    rewrite Hs. destruct (decide (c' = c)) as [->|Hne].
+    + right. rewrite HL. rewrite decide_True by done. apply elem_of_app. right. apply elem_of_list_here.
+    + apply elem_of_cons in Hc' as [->|Hc']; [done|].
+      destruct (Hq c' Hc') as [?|Hr]; [by left|right].
+      rewrite HL. rewrite decide_False by (intros [= ->]; done). done.
   - (* leave *)
-    pose proof (conn_ne0 _ _ Hinv Hcc) as Hc0.
-    constructor.
-    + intros c' Hcs. rewrite Hs in Hcs. apply elem_of_list_filter in Hcs as [Hne Hcs].
-      apply (pending_false_mono s); [|by apply W1]. unfold pending. rewrite HL.
-      rewrite decide_False; [done|]. intros [[= ? ?]|[= ?]]; simplify_eq.
-    + intros c' w q1 q2 Hcs Hsplit Hfin. rewrite Hs in Hcs. apply elem_of_list_filter in Hcs as [Hne Hcs].
-      rewrite HE. rewrite HL in Hsplit.
-      rewrite decide_False in Hsplit by (intros [[= ?]|[= ? ?]]; simplify_eq).
-      by apply (W2 c' w q1 q2).
+    apply elem_of_list_filter in Hc' as [Hne Hc'].
+    rewrite Hs. destruct (Hq c' Hc') as [?|Hr]; [left; by apply elem_of_list_filter|right].
+    rewrite HL. rewrite decide_False; [done|]. intros [[= ? ?]|[= ?]]; simplify_eq.
 Qed.
 
-Lemma narrow_in_window s p u s' :
-  sinv s -> winv s -> step s (EvDespawn p u) = Some s' ->
-  bad_S18 s (EvDespawn p u) = true -> bad_S18_window s (EvDespawn p u) = true.
+Lemma qinv_reachable tr s : run init tr = Some s -> qinv s.
 Proof.
-  intros Hinv [W1 W2] Hstep Hbad. simpl in *.
-  apply andb_true_iff in Hbad as [Hp0 Hbad]. rewrite Hp0. simpl.
-  apply bool_decide_eq_true in Hp0.
-  destruct (peer_on s p) eqn:Hon; [|done].
-  destruct (bool_decide (u ∈ get_ents s p)) eqn:Hin; [|done].
-  apply bool_decide_eq_true in Hin.
-  apply peer_on_spec in Hon as [->|Hpc]; [done|].
-  unfold in_sync_window. rewrite (bool_decide_eq_true_2 _ Hpc). simpl.
-  destruct (decide (p ∈ synced s)) as [Hps|Hps]; [|by rewrite (bool_decide_eq_false_2 _ Hps)].
-  destruct (decide (EFinInit ∈ get_link s 0 p)) as [Hfin|Hfin];
-    [rewrite (bool_decide_eq_true_2 _ Hfin); apply orb_true_r|].
-  exfalso. apply orb_true_iff in Hbad as [Hdup|Hpend].
-  - apply after_msgs_true_inv in Hdup as [?|Hsp]; [done|].
-    apply elem_of_list_split in Hsp as (q1 & q2 & Hsplit).
-    destruct (W2 p u q1 q2 Hps Hsplit) as [Hn _]; [|done].
-    intros Hin2. apply Hfin. rewrite Hsplit. apply elem_of_app. right. by apply elem_of_list_further.
-  - apply andb_true_iff in Hpend as [Hpend _]. by rewrite (W1 p Hps) in Hpend.
+  assert (Hgen : forall s0, sinv s0 -> qinv s0 -> run s0 tr = Some s -> qinv s).
+  { induction tr as [|e tr IH]; intros s0 Hinv Hq; simpl.
+    - by intros [= <-].
+    - destruct (step s0 e) as [s1|] eqn:Hstep; [|done]. intros Hrun.
+      apply (IH s1); [by eapply sinv_step|by eapply qinv_step|done]. }
+  apply Hgen; [apply sinv_init|apply qinv_init].
 Qed.
 
-Lemma scan_S18_in_window s tr s' :
-  sinv s -> winv s -> run s tr = Some s' ->
-  scan bad_S18 s tr = true -> scan bad_S18_window s tr = true.
+(* E4: a connected client whose links are empty has had its snapshot enqueued (and delivered) *)
+Theorem quiescent_conn_synced tr s :
+  run init tr = Some s -> quiescent s -> forall c, c ∈ conn s -> c ∈ synced s.
 Proof.
-  revert s. induction tr as [|e tr IH]; intros s Hinv Hw Hrun; simpl in *; [done|].
-  destruct (step s e) as [s1|] eqn:Hstep; [|done].
-  intros [Hb|Hrest]%orb_true_iff; apply orb_true_iff.
-  - left. destruct e as [p u|p u|a b|c|c]; try done. by eapply narrow_in_window.
-  - right. apply (IH s1); try done; [by eapply sinv_step|by eapply winv_step].
+  intros Hrun Hq c Hc. destruct (qinv_reachable _ _ Hrun c Hc) as [?|Hr]; [done|].
+  rewrite Hq in Hr. by apply elem_of_nil in Hr.
 Qed.
 
-(* every S18 trace is a trace in which some client despawns something between its EvConnect and the
-   delivery of its EFinInit *)
-Theorem known_S18_inside_window tr s :
-  run init tr = Some s -> known_S18 tr = true -> known_S18_window tr = true.
-Proof. intros Hrun. eapply scan_S18_in_window; [apply sinv_init|apply winv_init|done]. Qed.
-
-(* C01 with the purely temporal description of the S18 class *)
-Corollary C01_entities_converge_window tr s :
-  run init tr = Some s -> known_S11 tr = false -> known_S18_window tr = false -> quiescent s ->
-  agree s /\
-  (forall u, u ∉ dropped_uuids tr -> (u ∈ get_ents s 0 <-> u ∈ spec_alive tr)).
+(* hence the "synced" side condition of C01 is redundant at quiescence *)
+Corollary C01_every_connected_client tr s :
+  run init tr = Some s -> known_S11 tr = false -> quiescent s ->
+  forall c, c ∈ conn s ->
+    NoDup (get_ents s c) /\ (forall u, u ∈ get_ents s c <-> u ∈ get_ents s 0) /\
+    (forall u, u ∉ dropped_uuids tr -> (u ∈ get_ents s c <-> u ∈ spec_alive tr)).
 Proof.
-  intros Hrun H11 Hw Hq.
-  assert (H18 : known_S18 tr = false).
-  { destruct (known_S18 tr) eqn:Hk; [|done]. by rewrite (known_S18_inside_window _ _ Hrun Hk) in Hw. }
-  destruct (C01_entities_converge _ _ Hrun H11 H18 Hq) as (? & ? & _). done.
+  intros Hrun H11 Hq c Hc.
+  pose proof (quiescent_conn_synced _ _ Hrun Hq c Hc) as Hs.
+  destruct (C01_entities_converge _ _ Hrun H11 Hq) as ([_ Hag] & _ & Hspec).
+  destruct (Hag c Hc Hs) as [Hnd Hsame]. split; [done|]. split; [done|].
+  intros u Hdr. by apply Hspec.
 Qed.
 
-(* the window class is strictly wider: a despawn inside the window that is harmless *)
-Example window_is_wider :
-  let tr := [EvConnect 1; EvSpawn 1 10; EvDespawn 1 10; EvDeliver 1 0; EvDeliver 1 0; EvDeliver 1 0;
-             EvDeliver 0 1] in
-  (known_S18_window tr, known_S18 tr, (fun s => (quiescentb s, agreeb s)) <$> run init tr)
-  = (true, false, Some (true, true)).
+(* E4: a client that connects at ANY moment of the history and is still connected at the end ends
+   with exactly the host's entities *)
+Corollary joiner_gets_entities tr1 c tr2 s :
+  run init (tr1 ++ EvConnect c :: tr2) = Some s ->
+  known_S11 (tr1 ++ EvConnect c :: tr2) = false -> quiescent s -> c ∈ conn s ->
+  NoDup (get_ents s c) /\ forall u, u ∈ get_ents s c <-> u ∈ get_ents s 0.
+Proof.
+  intros Hrun H11 Hq Hc.
+  destruct (C01_every_connected_client _ _ Hrun H11 Hq c Hc) as (? & ? & _). done.
+Qed.
+
+Print Assumptions quiescent_conn_synced.
+Print Assumptions C01_every_connected_client.
+Print Assumptions joiner_gets_entities.
+
+(* ================================================================================================
+   10. Non-vacuity of the repaired statement
+   ================================================================================================ *)
+
+Lemma C01_by_run tr :
+  match run init tr with Some s => quiescentb s | None => false end = true ->
+  known_S11 tr = false ->
+  exists s, run init tr = Some s /\ quiescent s /\ agree s /\
+            (forall u, u ∉ dropped_uuids tr -> (u ∈ get_ents s 0 <-> u ∈ spec_alive tr)) /\
+            forall c, c ∈ conn s -> forall u, u ∈ get_ents s c <-> u ∈ get_ents s 0.
+Proof.
+  destruct (run init tr) as [s|] eqn:Hrun; [|done]. intros Hq%quiescentb_spec H11.
+  exists s. split; [done|]. split; [done|].
+  destruct (C01_entities_converge _ _ Hrun H11 Hq) as (Hag & Hspec & _).
+  split; [done|]. split; [done|]. intros c Hc.
+  by destruct (C01_every_connected_client _ _ Hrun H11 Hq c Hc) as (_ & ? & _).
+Qed.
+
+(* the former S18 histories satisfy the hypotheses of C01 (despawn inside the join window) *)
+Example C01_applies_to_former_S18 :
+  exists s, run init witness_S18 = Some s /\ quiescent s /\ agree s /\
+            (forall u, u ∉ dropped_uuids witness_S18 -> (u ∈ get_ents s 0 <-> u ∈ spec_alive witness_S18)) /\
+            forall c, c ∈ conn s -> forall u, u ∈ get_ents s c <-> u ∈ get_ents s 0.
+Proof. apply C01_by_run; vm_compute; reflexivity. Qed.
+
+Example C01_applies_to_former_S18_pending :
+  exists s, run init witness_S18_pending = Some s /\ quiescent s /\ agree s /\
+            (forall u, u ∉ dropped_uuids witness_S18_pending ->
+                       (u ∈ get_ents s 0 <-> u ∈ spec_alive witness_S18_pending)) /\
+            forall c, c ∈ conn s -> forall u, u ∈ get_ents s c <-> u ∈ get_ents s 0.
+Proof. apply C01_by_run; vm_compute; reflexivity. Qed.
+
+(* 3 peers: 2 joins late, gets 12 live AND in its snapshot, and despawns its replica of 12 inside
+   its join window (after its request was handled, before the snapshot arrives): the duplicate
+   ESpawn 12 of the snapshot is ignored, everybody ends with [10]. *)
+Definition ex_window_despawn : list event :=
+  [EvConnect 1; EvDeliver 1 0; EvDeliver 0 1; EvSpawn 0 10; EvConnect 2; EvSpawn 0 12;
+   EvDeliver 0 2; EvDeliver 2 0; EvDespawn 2 12;
+   EvDeliver 0 2; EvDeliver 0 2; EvDeliver 0 2; EvDeliver 2 0;
+   EvDeliver 0 1; EvDeliver 0 1; EvDeliver 0 1].
+
+Example ex_window_despawn_runs :
+  (ex_view <$> run init ex_window_despawn,
+   (fun s => (get_link s 0 2, get_tomb s 2)) <$> run init (firstn 9 ex_window_despawn),
+   known_S11 ex_window_despawn, spec_alive ex_window_despawn, dropped_uuids ex_window_despawn)
+  = (Some ([10], [10], [10], [2; 1], [2; 1], true, true, 11),
+     Some ([ESpawn 12; ESpawn 10; EFinInit], [12]), false, [10], []).
 Proof. vm_compute. reflexivity. Qed.
 
-Print Assumptions known_S18_inside_window.
-Print Assumptions C01_entities_converge_window.
+Example C01_applies_to_ex_window_despawn :
+  exists s, run init ex_window_despawn = Some s /\ quiescent s /\ agree s /\
+            (forall u, u ∉ dropped_uuids ex_window_despawn ->
+                       (u ∈ get_ents s 0 <-> u ∈ spec_alive ex_window_despawn)) /\
+            forall c, c ∈ conn s -> forall u, u ∈ get_ents s c <-> u ∈ get_ents s 0.
+Proof. apply C01_by_run; vm_compute; reflexivity. Qed.
+
+(* 3 peers: client 1 spawns 20; client 2 gets the relay and despawns 20 at once, while client 3
+   joins: 3's snapshot contains 20, the relayed EDelete 20 follows it on (0,3). *)
+Definition ex_relay_despawn : list event :=
+  [EvConnect 1; EvConnect 2; EvDeliver 1 0; EvDeliver 2 0; EvDeliver 0 1; EvDeliver 0 2;
+   EvSpawn 1 20; EvDeliver 1 0; EvConnect 3; EvDeliver 0 2; EvDeliver 3 0; EvDespawn 2 20;
+   EvDeliver 2 0; EvDeliver 0 1; EvDeliver 0 3; EvDeliver 0 3; EvDeliver 0 3].
+
+Example ex_relay_despawn_runs :
+  ((fun s => (get_ents s 0, get_ents s 1, get_ents s 2, get_ents s 3, conn s, quiescentb s, agreeb s))
+     <$> run init ex_relay_despawn,
+   (fun s => get_link s 0 3) <$> run init (firstn 13 ex_relay_despawn),
+   known_S11 ex_relay_despawn)
+  = (Some ([], [], [], [], [3; 2; 1], true, true), Some [ESpawn 20; EFinInit; EDelete 20], false).
+Proof. vm_compute. reflexivity. Qed.
+
+(* joiner_gets_entities on the 3-peer trace of section 0: client 2 connects in the middle *)
+Example joiner_applies_to_ex_trace :
+  exists s, run init ex_trace = Some s /\
+            NoDup (get_ents s 2) /\ forall u, u ∈ get_ents s 2 <-> u ∈ get_ents s 0.
+Proof.
+  destruct (run init ex_trace) as [s|] eqn:Hrun; [|by vm_compute in Hrun].
+  exists s. split; [done|].
+  change ex_trace with (firstn 5 ex_trace ++ EvConnect 2 :: skipn 6 ex_trace) in Hrun.
+  eapply joiner_gets_entities; [exact Hrun|vm_compute; reflexivity| |].
+  - apply quiescentb_spec. vm_compute in Hrun. injection Hrun as <-. vm_compute. reflexivity.
+  - vm_compute in Hrun. injection Hrun as <-. vm_compute. set_solver.
+Qed.
